@@ -12,2843 +12,1237 @@ Definition show_fres (r : fres) : string :=
   end.
 Definition check (rs : list rune) : string := digest (show_fres (format_res rs)).
 Definition full (rs : list rune) : string := show_fres (format_res rs).
-Eval vm_compute in ("<<<M3650>>>" ++ check (runes_of_ascii "options { LittleEndian =
-    // c3
-false // c4
-; FixedStringPadFromLeft // c6a
-  // c6b
-= // c7a
-  // c7b
-false // c8
-; // c9
-FixedStringPadChar // c10
-= // c11
-' '
-    // c12
-; // c13a
-  // c13b
-} packet Fill { uint16 // c18a
-  // c18b
-Qty // c19a
-  // c19b
-, // c20a
-  // c20b
-uint64 clOrdID // c22
-,
-    // c23
-repeat // c24a
-  // c24b
-i64
-    // c25
-Flags // c26
-, // c27
-} // c28
-packet // c29a
-  // c29b
-Ack
-    // c30
-{ zchar[ // c32
-7 ] clOrdID , // c36
-u64
-    // c37
-lastPx // c38
-,
-    // c39
-char[] // c40a
-  // c40b
-Note , // c42a
-  // c42b
-repeat
-    // c43
-Fill , // c45
-int32
-    // c46
-count , } // c49
-packet
-    // c50
-Quote // c51a
-  // c51b
-{ u8 // c53
-venue // c54a
-  // c54b
-, InRef40 // c56a
-  // c56b
-{ // c57a
-  // c57b
-char[] // c58
-Qty
-    // c59
-, // c60
-}
-    // c61
-,
-    // c62
-zchar[
-    // c63
-5 ] Flags
-    // c66
-,
-    // c67
-@rightPad
-    // c68
-( // c69
-'\x00' // c70a
-  // c70b
-) // c71
-char[ // c72
-12
-    // c73
-] // c74a
-  // c74b
-msgKind // c75
-, // c76a
-  // c76b
-} // c77
-packet
-    // c78
-Logout
-    // c79
-{ // c80
-InSym79 // c81
-{ int32
-    // c83
-Qty
-    // c84
-, Fill // c86a
-  // c86b
-, // c87
-char[ 3
-    // c89
-]
-    // c90
-x // c91a
-  // c91b
-, // c92
-repeat
-    // c93
-InNote29 // c94a
-  // c94b
-{ // c95a
-  // c95b
-i16
-    // c96
-price // c97a
-  // c97b
-,
-    // c98
-Ack , // c100a
-  // c100b
-f64
-    // c101
-x // c102a
-  // c102b
-, zchar[ // c104a
-  // c104b
-8 ] // c106a
-  // c106b
-count
-    // c107
-,
-    // c108
-} // c109
-,
-    // c110
-}
-    // c111
-, // c112
-}
-    // c113
-root // c114
-packet Logon { // c117a
-  // c117b
-zchar[ // c118a
-  // c118b
-1 // c119
-] sym
-    // c121
-, u32 // c123
-count // c124
-,
-    // c125
-u16 tag7
-    // c127
-@lengthOf( Body // c129
-)
-    // c130
-, // c131a
-  // c131b
-match count as // c134a
-  // c134b
-Body // c135a
-  // c135b
+Eval vm_compute in ("<<<M265>>>" ++ check (runes_of_ascii "MetaData MetaDataX
 {
-    // c136
-[
-    // c137
-122 // c138a
-  // c138b
-,
-    // c139
-152
-    // c140
-] // c141
-: // c142a
-  // c142b
-Ack
-    // c143
-, 118 // c145a
-  // c145b
-: Logout , // c148a
-  // c148b
-61 // c149
-: // c150
-Quote // c151a
-  // c151b
-, // c152a
-  // c152b
-161 // c153a
-  // c153b
-: Fill
-    // c155
-,
-    // c156
-} // c157
-, // c158a
-  // c158b
-u32 // c159
-Acct @calculatedFrom( ""CRC32"" ) // c163a
-  // c163b
-, } ")).
-Eval vm_compute in ("<<<M4284>>>" ++ check (runes_of_ascii "MetaData 
-msg_type
-
-{ trueish
-i8i8  ,
-
-    float32
-    msg_type , options1 
-BodyLength`two words`  ,u128
-
-    body `u8 x,`
-
+    Foo BodyLength // packet A { u8 x, }
+, As T , }options { calculatedFrom = true  ;// " ++ [27880; 37322]%N ++ runes_of_ascii "
+Header
+= true}
+// trailing space 
+// c
+packet tag {	@leftPad (
+    '\x00') @lengthOf( Foo)// a // b
+@tag(
+    42)string body
     ,
-
-}  // trailing space 
-
-packet  
-  // c
-    Logon {
-repeat i32
-    metadata  `
-` ,@calculatedFrom(
-	""x y""  )
-    // c
-	i64_, i64	int 
-@lengthOf(
-	pack
-	) 
-,
-	char[]charz	, 
-        // @lengthOf(
-
-match
-
-_x as 
-    // a // b
-
-/// triple
-	pack
-
-    {
-    3
-	:
-
-    body 
-,  [""// no comment"",""a\""b""  ]
-:uint8x
-,
-
-    3
-
-: lengthOf
-	, }
-	, matchKey , 
-roots
-
-{
-	_x	@lengthOf(
-Pad
-)	,	repeat a1
-_x
-, 
-},
-	string 
-T
-	,
-
-    @lengthOf( 
+@calculatedFrom(""abc"")
+char[ 00
+]	len,@calculatedFrom( """ ++ [128512]%N ++ runes_of_ascii """
+)	repeat tag ,match msg_type as // @lengthOf(
+Header {	65535
 //
+// @lengthOf(
+: roots , ""abc"" //
+: string_ , [ 007 , 0
+    // `tick` ""quote"" 'q'
+    ,	007 ]:
+// " ++ [128512]%N ++ runes_of_ascii " emoji
 // a // b
-  	Pad)
-
-match  f32a
-
-as
-    u// c
-    {  // a // b
-	[ 10 
-        // a // b
-	,
-    //	t
-  """ ++ [233]%N ++ runes_of_ascii "t" ++ [233]%N ++ runes_of_ascii """,// a // b
-		""`tick`""
-    ,
-
-255
-	, 0123456789
-
-    , ""1""
-, 	 //
-	""a	b"" 
+zchar 255
+    //
+    : Packet [ ""packet"" , 0 ,
+    ""\" ++ [233]%N ++ runes_of_ascii """ , ""x y"" , 65535 , """ ++ [233]%N ++ runes_of_ascii "t" ++ [233]%N ++ runes_of_ascii """ , 0123456789
 ,
-
-3  ]  :options1  }, }
-	MetaData 
-u128 { 
-char[  10
-
-]
-    tag
-
-    , 
-pack 
-stringy
-    ,
-
-char  pack  ,
-	} root  packet	Header 	 //
-  {match
-Foo 
-as
-    Logon
-    {  [ 
-""" ++ [233]%N ++ runes_of_ascii "t" ++ [233]%N ++ runes_of_ascii """
-
-, ""CRC32""	]:falsey	[  //x
-    """ ++ [233]%N ++ runes_of_ascii "t" ++ [233]%N ++ runes_of_ascii """	,
-/// triple
-
-	// a // b
-    """"]
-:	u128
-	, [	00
-
-    ,  ""a\""b"" 
+7]
+: //
+matchKey} ,repeat
+int64
+metadata`
+`
 ,
-	7,
-""it's""
-
-,	""" ++ [28040; 24687]%N ++ runes_of_ascii """ ,
-    00 , 
-      // " ++ [128512]%N ++ runes_of_ascii " emoji
-    /// triple
-    255 , 00]	: 
-asx,
-""// no comment"":  charz
-
-    ,
-
-    ""1""
-    :Packet ,
-
-    [""// no comment"" , 1
-]
-    :zchar,
-}
-    ,  @lengthOf(u8x  // a // b
-  ) @tag(
-007 // @lengthOf(
-    )
-    @lengthOf(
-pack
-	)
-	u8 _x
-	`doc` ,  zchar[
-0123456789
-	// a // b
-    	]
-    Packet
-@lengthOf(
-
-o
+i64_
+`` //
+, char[42 ] MetaDataX
+// `tick` ""quote"" 'q'
+// c
+@calculatedFrom( ""CRC32"" ) , zchar[ 255 ]
+    //
+    roots	@lengthOf(
+    options1
+    ) `two words` , msg_type @calculatedFrom(
+    //x
+    ""\n""  ) ,
+    u len , } packet x {
+} packet falsey
+{  @calculatedFrom(
+""a	b""
 )
+    int64 falsey
+    `{ , }`,
+    repeat f64 crc// trailing space 
+,
+    @tag(	255) uint32 // a // b
+chars `" ++ [28040; 24687; 31867; 22411]%N ++ runes_of_ascii "` , @leftPad ( '\x00'	)@lengthOf( falsey )
+@calculatedFrom(	""a	b"" )  stringy { zchar[ // " ++ [27880; 37322]%N ++ runes_of_ascii "
+7	] Pad `line1
+line2` , string
+    pack,
+    // @lengthOf(
+    float64 string_ ,	},	repeat rootA{	match Logon as
+    /// triple
+    o // " ++ [27880; 37322]%N ++ runes_of_ascii "
+{ 007 //x
+:leftPad
+    , 0	: T , ""CRC32"" :
+T
+[ ""a	b"" ]: Logon , } ,
+    match // @lengthOf(
+x_y_z as
+_x
+{ 10
+:
+metadata , """ ++ [233]%N ++ runes_of_ascii "t" ++ [233]%N ++ runes_of_ascii """
+    : string_,  } ,} ,
+// c
+/// triple
+o{ options1
+    @calculatedFrom("""" ) ,	repeat i32
+body, } , @tag(1 /// triple
+) match packetx// " ++ [27880; 37322]%N ++ runes_of_ascii "
+as rootA
+{
+""" ++ [128512]%N ++ runes_of_ascii """:
+// `tick` ""quote"" 'q'
+//x
+zchar  ,
+    7 :
+    zchar  ,
+[ 0 , 42,
+""a\\"" , 0123456789	, ""it's""
+,3 //	t
+,
+""abc""	, 0123456789	]: lengthOf,
+// " ++ [27880; 37322]%N ++ runes_of_ascii "
+//x
+0
+// trailing space 
+// " ++ [27880; 37322]%N ++ runes_of_ascii "
+: _x, ""1"":
+    Header , }
+    , @rightPad
+    // c
+    ( ) repeat pack {
+match MetaDataX
+    as o { ""a\""b"" : Pad
+[ ""a\""b"" ]:A , 1
+: rootA  , }
+    , match	calculatedFrom as T/// triple
+{ 65535  : stringy , // " ++ [27880; 37322]%N ++ runes_of_ascii "
+65535 :  Packet ,
+    [
+007 , ""CRC32""
+    , 00 , 3 ,
+    65535
+,	""x y"" ,65535 ]: matchKey/// triple
+, 007
+: rootA
+,// @lengthOf(
+}, },char[] u128
+,// a // b
+}")).
+Eval vm_compute in ("<<<M159>>>" ++ check (runes_of_ascii "MetaData MetaDataX
+    { i8i8 roots
+,	zchar[	65535
+    ]rootA
+`// not a comment`, // a // b
+x_y_z  leftPad
+    //x
+    `u8 x,`, char[] stringy
+// c
+//x
+`it's` ,
+} // packet A { u8 x, }
+packet
+    Foo {
+string	lengthOf , i32 packetx@lengthOf( asx ) `{ , }`
+    ,
+repeat falsey`two words`, char[] roots@calculatedFrom(""" ++ [28040; 24687]%N ++ runes_of_ascii """ // " ++ [128512]%N ++ runes_of_ascii " emoji
+), //
+leftPad// @lengthOf(
+@calculatedFrom( """ ++ [28040; 24687]%N ++ runes_of_ascii """ )`" ++ [233]%N ++ runes_of_ascii "` ,
+    @tag( 42
+)
+zchar[
+65535 ]
+    As @lengthOf( a1
+)
+`doc`
+, } root packet charz{
+    @tag(
+    4294967296
+) string options1
+    `tab	here`
+    // @lengthOf(
+    , }packet leftPad	{ } packet metadata { //	t
+i32	BodyLength
+    @calculatedFrom(
+    ""it's"" ) `say ""hi""`,
+@rightPad //
+(	)
+    // " ++ [128512]%N ++ runes_of_ascii " emoji
+    chars//x
+{
+repeat
+    falsey	{ uint64 tag @lengthOf(
+len )
+, char[ 42]packetx @calculatedFrom(
+//x
+// a // b
+""abc"" )
+, } , Header { zchar[ 00 //x
+] charz
+@calculatedFrom( ""x y"" ) // trailing space 
+, uint8 calculatedFrom @calculatedFrom( ""\n"" // c
+) , trueish `" ++ [28040; 24687; 31867; 22411]%N ++ runes_of_ascii "` , string_ // @lengthOf(
+@calculatedFrom( ""// no comment"" ) // c
+`it's` ,} , string crc ,
+}  , // " ++ [128512]%N ++ runes_of_ascii " emoji
+@calculatedFrom( ""1"" )
+    @calculatedFrom(	""" ++ [28040; 24687]%N ++ runes_of_ascii """
+    // " ++ [27880; 37322]%N ++ runes_of_ascii "
+    ) @tag(7
+// trailing space 
+//
+) i8
+Foo
+// @lengthOf(
+// a // b
+, i8 a1
+//
+//x
+@calculatedFrom( ""{,}"" ) ``
+, repeat falsey	{
+o // c
+@calculatedFrom( ""abc"" ) `
+`  , zchar[42 ] matchKey , }	, i64 As ,
+//	t
+// `tick` ""quote"" 'q'
+repeat As  , repeat
+    int64 string_
+, }
+//	t
+")).
+Eval vm_compute in ("<<<M133>>>" ++ check (runes_of_ascii "root packet x_y_z { match Z9_ as  u{ 255:pack , 255 : u128
+, 007 : float ""\n"" :options1 , [	""" ++ [28040; 24687]%N ++ runes_of_ascii """ , 1 ]
+: Z9_""" ++ [28040; 24687]%N ++ runes_of_ascii """:	chars
+, }, u8 _x @calculatedFrom(
+    // a // b
+    """ ++ [28040; 24687]%N ++ runes_of_ascii """ )`say ""hi""` ,@tag( 3 ) match a1 as msg_type { [ ""\n"" // a // b
+, 255//x
+, 0 ] :crc	,} , }
+root packet o
+{  match tag as _x
+    { 007 :
+    x ,	10 :charz,
+""{,}""
+:body	,""" ++ [233]%N ++ runes_of_ascii "t" ++ [233]%N ++ runes_of_ascii """ : len
+""" ++ [128512]%N ++ runes_of_ascii """
+    :
+    u , }
+    ,
+    u64 u @calculatedFrom( ""x y""
+// c
+// " ++ [27880; 37322]%N ++ runes_of_ascii "
+)
+`it's`, @lengthOf( trueish ) repeat // packet A { u8 x, }
+uint8 u8x
+`" ++ [28040; 24687; 31867; 22411]%N ++ runes_of_ascii "` // a // b
+, @calculatedFrom(	""\n"" )
+    @rightPad() @leftPad (
+    '\x00')
+    repeat uint32 float, @lengthOf(	A )
+    @tag(//	t
+0123456789 ) @rightPad ( ' '
+    ) zchar[ 10	]
+    // " ++ [128512]%N ++ runes_of_ascii " emoji
+    o// packet A { u8 x, }
+,
+    uint8x
+    @calculatedFrom( ""a\\"" // " ++ [27880; 37322]%N ++ runes_of_ascii "
+) `
+`
+,body
+, repeat //	t
+char[10 ]
+    string_ `tab	here`
+    , } root packet
+    roots {  } packet u {@calculatedFrom(	""" ++ [128512]%N ++ runes_of_ascii """ )	f64 Logon// `tick` ""quote"" 'q'
+@calculatedFrom( ""1""
+)
+    `a\` ,  int16 trueish `line1
+line2`
+,//
+zchar[  0123456789 ]
+    // a // b
+    BodyLength `two words`, float32 i8i8 @lengthOf( metadata ) `// not a comment`
+, i32 leftPad,	}
+
+")).
+Eval vm_compute in ("<<<M1532>>>" ++ check (runes_of_ascii "  options
+{ LittleEndian
+= true ;
+    StringPrefixLenType
+
+    =
+u16	;
+    ArrayPrefixLenType=
+
+    u8 ;
+    FixedStringPadChar
+    =  '0'; }
+
+packet Logout
+	{repeat i16 f1
+
+    ,
+string
+	Ref , @rightPad (	'\x00' 
+)
+    char[ 9	] 
+Tail 
+,  repeat
+char[	6 
+] Flags ,
+repeat
+    char[  3 ] Acct
+
+    ,
+} packet
+Party {
+char[ 2  ]
+
+f1
+    ,
+u8 Side2 ,
+    @leftPad 
+( 
+' '
+
+) char[
+
+    1 
+]venue ,
+} packet Order
+{
+    repeat
+    i64
+
+Ref
+    , 
+InPx62 { i32 
+OrderId
+
+, }
+
+    ,	InNote53
+    { InClordid80	{
+char[] 
+Acct  ,
+	u32
+	Px
 ,
 
-    match chars  as	msg_type
-{	""\n"" :
+    repeat  Party , }	,
 
-lengthOf ,
-0123456789 
-
-    // packet A { u8 x, }
-  // trailing space 
-	  :
-a1
+InPrice12{
+u8
+pad0
 , 
-[4294967296 ]
-    :stringy 
-, [
-    ""`tick`""
+}, repeat
+Logout	,  InFlags23 {
 
-    , ""`tick`"" 
-	// `tick` ""quote"" 'q'
-    	,
+repeat
+	string  seqNo
 
-0 
-] // @lengthOf(
+, string sym
+,
+    int8 
+Flags,
 
-  :
-
-    /// triple
-      falsey  ,[	// `tick` ""quote"" 'q'
-  	007 
-, 
-      // a // b
-
-65535 ,
-	65535
-	,
-10
-
-    ,  ""abc"", 3
+zchar[
+5
+    ]lastPx,
+	zchar[ 6
 
     ]
 
-:
-    body ,
-}
-    ,
-zchar[
-
-    10 ]
-	// " ++ [27880; 37322]%N ++ runes_of_ascii "
-    Logon
-    , }packet
-Packet 
-{
-    }  // " ++ [27880; 37322]%N ++ runes_of_ascii "
- 
-")).
-Eval vm_compute in ("<<<M3895>>>" ++ check (runes_of_ascii "options {
-    metadata = string;
-}
-
-packet Header {
-    @leftPad(' ')
-    string i8i8 `it's`,
-    @lengthOf(roots)
-    u @calculatedFrom(""" ++ [128512]%N ++ runes_of_ascii """),
-    @tag(65535)
-    match Pad as stringy {
-        3 : f32a,
-        ""a\\"" : i8i8,
-        [""" ++ [128512]%N ++ runes_of_ascii """, 7] : rootA,
-        // " ++ [128512]%N ++ runes_of_ascii " emoji
-        ""a\""b"" : x_y_z,
-        [0123456789, ""a	b""] : Logon,
-    },
-    metadata {
-        char[] chars @calculatedFrom(""" ++ [128512]%N ++ runes_of_ascii """) `two words`,
-        repeat asx {
-            msg_type {
-                int64 _x `
-                `,
-                repeat Z9_,
-                uint16 leftPad `line1
-                line2`,
-                trueish x_y_z ``,
-            },// trailing space 
-            zchar[4294967296] chars `crlf
-            line`,
-            Logon `a\`,
-        },
-        char[] body,
-    },
-    repeat u {
-        int {
-            repeat zchar {
-                f64 lengthOf @calculatedFrom(""abc"") `" ++ [233]%N ++ runes_of_ascii "`,/// triple
-            },
-            As @calculatedFrom(""{,}""),
-            repeat char[] metadata,
-            string calculatedFrom `two words`,
-        },
-    },
-    @rightPad('0')
-    // " ++ [27880; 37322]%N ++ runes_of_ascii "
-    @rightPad('0')
-    @lengthOf(x)
-    repeat leftPad `// not a comment`,
-    @rightPad(' ')
-    o Z9_,
-}
-
-packet Pad {
-    metadata trueish `u8 x,`,
-}
-
-options {
-    len = i64
-    f32a = ""x y"";
-    matchKey = ""packet"";
-}
-
-packet lengthOf {
-    char[7] MetaDataX @lengthOf(BodyLength),
-    int8 As @lengthOf(calculatedFrom) ``,
-    repeat char[] As,
-    body @calculatedFrom(""abc""),
-    repeat float64 MetaDataX `" ++ [28040; 24687; 31867; 22411]%N ++ runes_of_ascii "`,
-    @tag(4294967296)
-    match u8x as crc {
-        [""\n"", 65535] : _x,
-        255 : roots,
-    },
-}//	t")).
-Eval vm_compute in ("<<<M467>>>" ++ check (runes_of_ascii "options
-{ metadata = char[
-4294967296
-    ] ;}  packet f32a
-{
-    match Z9_ as repeatCount
-    { 3 : crc
-,""{,}"" :pack , }, char[]
-calculatedFrom
-    @lengthOf( // @lengthOf(
-MetaDataX	)
-, @calculatedFrom( ""`tick`""
-    )// " ++ [128512]%N ++ runes_of_ascii " emoji
-x_y_z
-    // " ++ [27880; 37322]%N ++ runes_of_ascii "
-    , i8 leftPad ,  i8 uint8x @calculatedFrom(
-""packet"" ) // trailing space 
-`// not a comment`,
-@calculatedFrom(""""  ) @tag( 007)	char[ 10
-    ] T
-    @calculatedFrom(
-"""" //
-) ,u8x {zchar
-    @lengthOf( // packet A { u8 x, }
-u )
-    `{ , }`
-    // c
-    , },
-    float`say ""hi""`
-    ,i64 packetx,@lengthOf(BodyLength ) string  calculatedFrom , } packet
-MetaDataX // " ++ [27880; 37322]%N ++ runes_of_ascii "
-{ @calculatedFrom( ""{,}"" )
-match/// triple
-metadata as //
-_x
-    { ""1""	: // c
-uint8x  ,""{,}"" :
-falsey } ,} packet // " ++ [27880; 37322]%N ++ runes_of_ascii "
-Logon {  o @lengthOf( i8i8 )  , @rightPad ( '0'
-)
-    int64
-msg_type , char calculatedFrom
-, @tag( 255 )i8i8  @calculatedFrom( ""x y"" )
-    ,i8i8 // @lengthOf(
-@calculatedFrom( ""\" ++ [233]%N ++ runes_of_ascii """
-    )	, @tag( 0123456789
-    ) lengthOf ,@lengthOf( // `tick` ""quote"" 'q'
-o ) @tag(
-10 )
-    match options1 as u{ ""1"" :
-Pad  , // c
-""\" ++ [233]%N ++ runes_of_ascii """:metadata , // @lengthOf(
-} , @tag( // " ++ [128512]%N ++ runes_of_ascii " emoji
-1) @tag(
-65535 ) @lengthOf( Packet ) repeat T , @tag( 4294967296 )
-match x_y_z as uint8x {
-""{,}"":uint8x
-    7 : metadata, 7: i64_ [""" ++ [233]%N ++ runes_of_ascii "t" ++ [233]%N ++ runes_of_ascii """ ,""CRC32"" , // trailing space 
-""packet"" , 00
-    ,65535 , ""x y""	, // " ++ [27880; 37322]%N ++ runes_of_ascii "
-""packet"" //x
-]	:metadata , // packet A { u8 x, }
-""packet"" :
-    uint8x ,	} , repeat
-    x ,	}")).
-Eval vm_compute in ("<<<M874>>>" ++ check (runes_of_ascii "// `tick` ""quote"" 'q'
-packet Pad
-    { pack// " ++ [27880; 37322]%N ++ runes_of_ascii "
-{ char repeatCount
-    @lengthOf( a1 )
-    ,int16 Pad ,
-    int16
-    calculatedFrom ,
-    } , @lengthOf( tag)
-uint16 repeatCount
-    ,	@tag( 10) char[ 007 ] trueish
-// a // b
-// @lengthOf(
-, Header// packet A { u8 x, }
-@calculatedFrom( ""\n"" // " ++ [128512]%N ++ runes_of_ascii " emoji
-)
-    `
-`
+Px
 ,
-    i8i8 a1
-`" ++ [28040; 24687; 31867; 22411]%N ++ runes_of_ascii "` , u32 x @calculatedFrom( ""abc"") , @lengthOf( crc )
-//x
-// " ++ [27880; 37322]%N ++ runes_of_ascii "
-repeat
-    char[ 3
-] charz`crlf
-line` , }MetaData MetaDataX{x As , } //	t
-root // " ++ [128512]%N ++ runes_of_ascii " emoji
-packet
-    chars{ }
-packet	o { @lengthOf(
-msg_type )
-    /// triple
-    repeat uint64 float , a1 , repeatCount { char[
-// `tick` ""quote"" 'q'
-//
-00 ] u8x @lengthOf(Header ) `" ++ [28040; 24687; 31867; 22411]%N ++ runes_of_ascii "` ,len
-    // trailing space 
-    @lengthOf( //
-options1 )
-,x @lengthOf( //	t
-pack
-) `two words`
-    , char[] leftPad  `" ++ [233]%N ++ runes_of_ascii "` ,}// " ++ [27880; 37322]%N ++ runes_of_ascii "
-,
-char[] stringy//	t
-@lengthOf(	msg_type ) `u8 x,`// packet A { u8 x, }
-, @calculatedFrom(""it's"" ) Header A
-,char[
-1// `tick` ""quote"" 'q'
-] f32a  ,
-}root
-    packet packetx {// a // b
-repeat
-    zchar[
-007 ] u8x ,	@leftPad// @lengthOf(
-('0'
-    )
-f64 stringy @lengthOf(
-lengthOf )
-,	match T as o {
-65535
-    // @lengthOf(
-    : tag ,
-255: o
-    """" : stringy ,
-} ,@lengthOf( calculatedFrom ) @leftPad	(
-'0' ) @lengthOf( u ) f64 Logon @lengthOf(
-    _x) , } //	t")).
-Eval vm_compute in ("<<<M50>>>" ++ check (runes_of_ascii "//x
-packet Header
-    {
-    body
-// " ++ [27880; 37322]%N ++ runes_of_ascii "
-// " ++ [27880; 37322]%N ++ runes_of_ascii "
-@calculatedFrom(
-    ""CRC32"" )
-`it's` ,repeat
-int64//x
-msg_type // " ++ [128512]%N ++ runes_of_ascii " emoji
-,
-//	t
-//
-@tag( 0 ) zchar[ 0 //
+}  , 
+char[10
+    ] 
+Acct,	InPx18 
+{ zchar[2
+
 ]
-    int
-//	t
-// @lengthOf(
-, }
-    // " ++ [128512]%N ++ runes_of_ascii " emoji
-    options { Packet=
-true
-    MetaDataX =
-""" ++ [28040; 24687]%N ++ runes_of_ascii """ A
-    = string} root packet	Logon {
-    @leftPad // " ++ [27880; 37322]%N ++ runes_of_ascii "
-('0' //x
-)Header//
-leftPad `doc` ,
-    f32a
-    {	rootA @lengthOf( calculatedFrom )	, int8
-Packet `line1
-line2` , } , repeat calculatedFrom
-    { // `tick` ""quote"" 'q'
-match
-packetx as len { 1:matchKey ,
-0123456789 :repeatCount ,
-""\" ++ [233]%N ++ runes_of_ascii """ :
-float , 255:
-    MetaDataX
-, },} ,
-//x
-// " ++ [27880; 37322]%N ++ runes_of_ascii "
-leftPad {  repeat roots{ //	t
-roots
-@calculatedFrom(/// triple
-""abc"" ),int32
-BodyLength @calculatedFrom( ""packet"" )
+
+    count
+    ,	Party
+	,  }
+
+    ,}  , char[5
+]
+
+Side2  ,char[
+	1
+
+]Acct
+
+,}
+root
+
+    packet
+
+Ack{
+
+u32 Tail  ,repeat
+
+char[ 4
+]
+    msgKind
+, repeat	Logout ,	}
+
+")).
+Eval vm_compute in ("<<<M1933>>>" ++ check (runes_of_ascii "options{  LittleEndian= 
+false	; StringPrefixLenType=
+
+    u8 ;  ArrayPrefixLenType =	u8  ;FixedStringPadFromLeft= true;
+
+    FixedStringPadChar
+    =	' '  ; }
+
+packet
+
+    Trade 
+{
+	zchar[ 2 ] Side2,
+
+    i8 seqNo
+
+    ,	}
+
+    packet	Party 
+{ uint32
+
+price
+
 ,
-}	, match repeatCount as
-matchKey { ""abc"" : u128 , """ ++ [128512]%N ++ runes_of_ascii """ : a1
-, ""a\\""
-:rootA ,	[  3,3 ]// c
-:
-x_y_z	007 :Foo
-    } ,
-}
-, // c
-repeat rootA	matchKey	`it's` //	t
-,	a1
-    @calculatedFrom(""x y"" )  `line1
-line2` ,int	,
-    @tag(
-// trailing space 
-//x
-65535) match metadata as	As
-{ ""x y"": Foo	,//x
-[ // `tick` ""quote"" 'q'
-""x y"" ]:
-    tag
-//
-// a // b
-, 3
-    : pack } ,repeat int8 charz ,char[] body , }
-options {
-    MetaDataX = char[ 0 ] ; } // a // b")).
-Eval vm_compute in ("<<<M4084>>>" ++ check (runes_of_ascii "packet As {
-    options1 {
-        i16 o,
-    },
-    i64 roots,
-    repeat char[] o `a\`,
-    @calculatedFrom(""1"")
-    repeatCount @lengthOf(falsey) `a\`,
-    @lengthOf(stringy)
-    char[] As `" ++ [233]%N ++ runes_of_ascii "`,
-    asx {
-        match msg_type as chars {
-            //	t
-            00 : metadata,
-        },
-        i8 pack @calculatedFrom(""x y""),//	t
-        match u8x as rootA {
-            ""1"" : a1,
-            [4294967296] : msg_type,
-        },
-    },
-    @calculatedFrom(""" ++ [233]%N ++ runes_of_ascii "t" ++ [233]%N ++ runes_of_ascii """)
-    int16 roots,
-    @tag(1)
-    @leftPad('0')
-    @rightPad('\x00')
-    i32 asx `tab	here`,
-    char Logon `u8 x,`,
-}
+	}
 
-root packet string_ {
+packet
+Ack
+	{
+@rightPad
+    ( '\x00'
+
+) char[6 
+]
+x 
+,  repeat
+char[
+
+4  ]
+
+    Flags
+,zchar[
+9 ]
+f1
+
+    , }
+    packet Cancel
+	{
+Ack
+	,
+}packet  Heartbeat 
+{
+    string
+    Px
+    ,
+
+    string  Acct ,
+f64
+
+Side2
+
+,
+
+InQty24
+	{  i16 
+seqNo  ,
+repeat  i32 Flags
+	, } ,  }  root
+    packet Logon
+	{
+Trade  , 
+i64 venue  ,  u32
+    x 
+,
+	u8 
+seqNo	,match seqNo
+
+as
+
+    Body{
+    [ 1
+    ,
+164
+
+]
+	:	Ack
+
+, 
+31
+	:
+Cancel , 23	:
+
+    Heartbeat 
+,
+
+    64 :
+    Party	, }
+
+    ,	} ")).
+Eval vm_compute in ("<<<M88>>>" ++ check (runes_of_ascii "// trailing space 
+packet tag {
+    @rightPad
     // @lengthOf(
+    ( '0' )
+    u128 ,
+@lengthOf(MetaDataX
+    )
+    // c
+    leftPad, // packet A { u8 x, }
+@tag( 1
+    )calculatedFrom
+    @lengthOf( Logon )  , }
+packet string_	{ } packet u128 {char[	0 // packet A { u8 x, }
+]
+chars `say ""hi""`
+,
+int , @leftPad ( '0'
+// @lengthOf(
+//x
+)T { repeat zchar[ 255]
+int
+,zchar  stringy	, }
+    ,repeat zchar{ match leftPad as packetx
+{ [
+""`tick`""
+    ] :
+    lengthOf //x
+,  [  7,""" ++ [128512]%N ++ runes_of_ascii """
+    ,
+00 , ""x y"" , ""packet"" ] :
+    stringy // @lengthOf(
+, [
+42 ,""\n""
+, ""it's"" ,// " ++ [128512]%N ++ runes_of_ascii " emoji
+65535, 1	]
+: msg_type ""packet"" :	a1 ,} , u16 int
+,
+repeat x_y_z float,
+repeat//x
+u64 A `a\` ,
+} , }
+")).
+Eval vm_compute in ("<<<M1894>>>" ++ check (runes_of_ascii "
+
+  root
+
+    packet pack
+{@calculatedFrom( ""`tick`""
+)@calculatedFrom( 
+// " ++ [128512]%N ++ runes_of_ascii " emoji
+	""\n""
+
+) @tag( 0123456789
+)  match
+zchar as
+    string_  {[
+
+""packet""
+
+    ]//
+
+  :
+
+i8i8
+    , [	0123456789	,7 
+]	:
+
+string_, 
+    //x
+    // `tick` ""quote"" 'q'
+0
+
+:
+	options1 , 
+""\" ++ [233]%N ++ runes_of_ascii """	:	// `tick` ""quote"" 'q'
+  Foo
+,
+
 }
 
-packet Z9_ {
-    int8 _x,
-    repeat u8 uint8x `" ++ [233]%N ++ runes_of_ascii "`,
-    float64 x_y_z @calculatedFrom(""x y""),
-    @calculatedFrom(""a\""b"")
-    @calculatedFrom(""a\""b"")
-    int {
-        zchar[255] msg_type,
-        i64_ {
-            stringy @lengthOf(x_y_z),
-            u options1 `tab	here`,
-            char[0123456789] msg_type,
-            float32 Foo `{ , }`,
-        },
+,@lengthOf(
+    calculatedFrom
+	)  Foo	@lengthOf(
+
+    x
+)  `crlf
+line`, lengthOf
+@lengthOf(
+int 
+),T
+
+    ,
+	@lengthOf(
+
+    rootA)
+    zchar[
+007
+	]
+    // " ++ [128512]%N ++ runes_of_ascii " emoji
+// packet A { u8 x, }
+	x `crlf
+line`
+
+    , @calculatedFrom( ""\n""
+)repeat
+f64
+chars  ,matchKey
+_x
+    , } ")).
+Eval vm_compute in ("<<<M1562>>>" ++ check (runes_of_ascii "options	{LittleEndian  =
+
+    false;
+
+ArrayPrefixLenType
+
+=u64	;FixedStringPadChar =
+    '0'
+
+;
+
+    }packet
+	Quote
+
+    {repeat 
+InFlags37 
+{
+char[]
+	lastPx, 
+}, i16
+    tag7, char[] 
+f1
+,
+zchar[	6
+	]Note	,} packet
+Order	{
+u8
+Ref,
+repeat
+
+    Quote , repeat
+string 
+Acct,	}	root
+	packet Heartbeat {  repeat
+
+Quote ,
+    @leftPad (
+'0'
+
+    )
+char[  11 ]
+OrderId ,
+
+zchar[	8
+]Ref
+, u32 Flags,u32 Tail
+	@lengthOf( Body
+	)	,
+
+match Flags
+as  Body
+	{
+156
+: Order, 
+7
+
+    :
+Quote  ,	}
+
+    ,}
+")).
+Eval vm_compute in ("<<<M2042>>>" ++ check (runes_of_ascii "packet T {
+    @lengthOf(MetaDataX)
+    match Packet as a1 {
+        [""1""] : zchar,
+        ""{,}"" : _x,
+    },// @lengthOf(
+    char[007] u128 @lengthOf(zchar),
+    string_,
+    @leftPad(' ')
+    match MetaDataX as u128 {
+        [""it's"", 7, 65535, 65535] : chars,
+        """ ++ [28040; 24687]%N ++ runes_of_ascii """ : u,
+        42 : zchar,
     },
-    @tag(0)
-    @calculatedFrom(""CRC32"")
-    charz,
-    @tag(4294967296)
-    i64 packetx,
-}//	t")).
-Eval vm_compute in ("<<<M4313>>>" ++ check (runes_of_ascii "MetaData Packet {
-    stringy body,
-    //	t
-    x_y_z matchKey,
-    zchar[007] MetaDataX,// " ++ [128512]%N ++ runes_of_ascii " emoji
-    u16 u128 `u8 x,`,
-    stringy i64_,
-    char[] Z9_ `two words`,
-}
-
-MetaData body {
-    float32 Header,
 }
 
 options {
-    trueish = false;
-    x_y_z = 7
-    Packet = false
-    i8i8 = zchar[255]
-    tag = char[];
+    matchKey = ""a\""b""
 }
 
-packet crc {
-    repeat char[0] x,
-    repeat float64 packetx,
-    match As as len {
-        [255] : Z9_,
-        // " ++ [27880; 37322]%N ++ runes_of_ascii "
-        ""{,}"" : MetaDataX,
-        [00, ""a	b"", 255] : Pad,
-        3 : body,
-    },
-    u128 @calculatedFrom(""CRC32""),// `tick` ""quote"" 'q'
-    @tag(10)
-    metadata {
-        repeat trueish x `line1
-        line2`,
-        u @calculatedFrom(""it's""),
-        match trueish as _x {
-            42 : o,
-            [""CRC32""] : rootA,
+MetaData options1 {
+    i16 len,
+    char[7] crc,
+    u16 asx `say ""hi""`,
+    i64 zchar,
+}// " ++ [27880; 37322]%N)).
+Eval vm_compute in ("<<<M1687>>>" ++ check (runes_of_ascii "options {
+    o = ' ';
+    lengthOf = ""it's""
+    string_ = """ ++ [28040; 24687]%N ++ runes_of_ascii """;
+    i8i8 = uint32
+}
+
+packet Logon {
+    Pad @lengthOf(stringy),
+    @rightPad('\x00')
+    Header stringy `a\`,
+    T {
+        match a1 as Logon {
+            42 : chars,
         },
     },
-    tag {
-        Z9_ {
-            zchar[3] stringy `tab	here`,
-        },
+    stringy {
+        zchar[7] x_y_z,
     },
-    matchKey u8x,
-    repeat int64 metadata `{ , }`,
-    @leftPad('\x00')
-    T int,
-    @calculatedFrom(""abc"")
-    zchar[4294967296] charz,// " ++ [128512]%N ++ runes_of_ascii " emoji
+    uint8x BodyLength,
+    repeat zchar,
+    @tag(7)
+    repeat u64 u128 `" ++ [28040; 24687; 31867; 22411]%N ++ runes_of_ascii "`,
 }")).
-Eval vm_compute in ("<<<M3654>>>" ++ check (runes_of_ascii "options { // c1
-FixedStringPadFromLeft = // c3a
-  // c3b
-true // c4
-; // c5a
-  // c5b
-FixedStringPadChar = // c7a
-  // c7b
-' ' // c8
-; // c9a
-  // c9b
-} // c10a
-  // c10b
-packet // c11a
-  // c11b
-Reject {
+Eval vm_compute in ("<<<M199>>>" ++ check (runes_of_ascii "
+root packet
+    tag { f64
+len ,
+char[
+    4294967296 ] A@calculatedFrom( """"  )`it's`, @tag( 65535
+    )
+match charz// a // b
+as tag	{
+    [ ""// no comment"" , """ ++ [128512]%N ++ runes_of_ascii """ ]:
+zchar	,
+    ""\n"":falsey  , },} packet float {f32a { repeat  packetx{
+    //x
+    char[ 255 ] int `it's`  ,} , uint32 x_y_z @lengthOf( pack ) // " ++ [27880; 37322]%N ++ runes_of_ascii "
+,}, } // `tick` ""quote"" 'q'")).
+Eval vm_compute in ("<<<M4>>>" ++ check (runes_of_ascii "root packet pack  { match Pad as// a // b
+f32a
+    {	[
+/// triple
+//	t
+"""" ]: leftPad
+, [""" ++ [233]%N ++ runes_of_ascii "t" ++ [233]%N ++ runes_of_ascii """,007 ] : //	t
+f32a //x
+, 65535 :  body
+    ,
+    // @lengthOf(
+    10:u128,42	: // trailing space 
+pack, } ,}options{// " ++ [27880; 37322]%N ++ runes_of_ascii "
+o=
+    // c
+    f64 ; x_y_z //
+= /// triple
+u32 len =
+    42;
+falsey
+    = true	;}")).
+Eval vm_compute in ("<<<M219>>>" ++ check (runes_of_ascii "MetaData _x
+{As	f32a `doc` // " ++ [128512]%N ++ runes_of_ascii " emoji
+, }
+packet// @lengthOf(
+x {	zchar[  255
+    ]	calculatedFrom  ,string_@calculatedFrom( ""a	b"" ) , @calculatedFrom(""" ++ [128512]%N ++ runes_of_ascii """)@tag(
+4294967296 )@calculatedFrom(""a	b""
+) char[ 0 ]i64_
+`" ++ [28040; 24687; 31867; 22411]%N ++ runes_of_ascii "` ,
+    @leftPad(' '  ) repeat
+// c
+// c
+MetaDataX
+    ,}")).
+Eval vm_compute in ("<<<M650>>>" ++ check (runes_of_ascii "root packet tag { }  packet MetaDataX{char[007	]
+// c
+/// triple
+asx  @calculatedFrom( ""a\""b""
+) `say ""hi""`// " ++ [27880; 37322]%N ++ runes_of_ascii "
+,  @tag(4294967296 )
+    char[1//x
+] packetx @calculatedFrom(""a\""b""
+    ) ,
+// " ++ [128512]%N ++ runes_of_ascii " emoji
+// a // b
+@calculatedFrom(""" ++ [233]%N ++ runes_of_ascii "t" ++ [233]%N ++ runes_of_ascii """  ) repeat pack // " ++ [27880; 37322]%N ++ runes_of_ascii "
+,
+    uint8 // c")).
+Eval vm_compute in ("<<<M510>>>" ++ check (runes_of_ascii "root packet tag { }  packet {MetaDataX char[007	]
+// c
+/// triple
+asx  @calculatedFrom( ""a\""b""
+) `say ""hi""`// " ++ [27880; 37322]%N ++ runes_of_ascii "
+,  @tag(4294967296 )
+    char[1//x
+] packetx @calculatedFrom(""a\""b""
+    ) ,
+// " ++ [128512]%N ++ runes_of_ascii " emoji
+// a // b
+@calculatedFrom(""" ++ [233]%N ++ runes_of_ascii "t" ++ [233]%N ++ runes_of_ascii """  ) repeat pack // " ++ [27880; 37322]%N ++ runes_of_ascii "
+,
+    } // c")).
+Eval vm_compute in ("<<<M550>>>" ++ check (runes_of_ascii "root packet tag { }  packet MetaDataX{char[007	]
+// c
+/// triple
+asx  @calculatedFrom( ""a\""b""
+`say ""hi""` )// " ++ [27880; 37322]%N ++ runes_of_ascii "
+,  @tag(4294967296 )
+    char[1//x
+] packetx @calculatedFrom(""a\""b""
+    ) ,
+// " ++ [128512]%N ++ runes_of_ascii " emoji
+// a // b
+@calculatedFrom(""" ++ [233]%N ++ runes_of_ascii "t" ++ [233]%N ++ runes_of_ascii """  ) repeat pack // " ++ [27880; 37322]%N ++ runes_of_ascii "
+,
+    } // c")).
+Eval vm_compute in ("<<<M628>>>" ++ check (runes_of_ascii "root packet tag { }  packet MetaDataX{char[007	]
+// c
+/// triple
+asx  @calculatedFrom( ""a\""b""
+) `say ""hi""`// " ++ [27880; 37322]%N ++ runes_of_ascii "
+,  @tag(4294967296 )
+    char[1//x
+] packetx @calculatedFrom(""a\""b""
+    ) ,
+// " ++ [128512]%N ++ runes_of_ascii " emoji
+// a // b
+@calculatedFrom(""" ++ [233]%N ++ runes_of_ascii "t" ++ [233]%N ++ runes_of_ascii """   repeat pack // " ++ [27880; 37322]%N ++ runes_of_ascii "
+,
+    } // c")).
+Eval vm_compute in ("<<<M483>>>" ++ check (runes_of_ascii "root  tag { }  packet MetaDataX{char[007	]
+// c
+/// triple
+asx  @calculatedFrom( ""a\""b""
+) `say ""hi""`// " ++ [27880; 37322]%N ++ runes_of_ascii "
+,  @tag(4294967296 )
+    char[1//x
+] packetx @calculatedFrom(""a\""b""
+    ) ,
+// " ++ [128512]%N ++ runes_of_ascii " emoji
+// a // b
+@calculatedFrom(""" ++ [233]%N ++ runes_of_ascii "t" ++ [233]%N ++ runes_of_ascii """  ) repeat pack // " ++ [27880; 37322]%N ++ runes_of_ascii "
+,
+    } // c")).
+Eval vm_compute in ("<<<M1301>>>" ++ check (runes_of_ascii "// top
+MetaData
+    // c0
+body
+    // c1
+{
+    // c2
+i64
+    // c3
+pack
+    // c4
+`it's`
+    // c5
+,
+    // c6
+}
+    // c7
+packet
+    // c8
+stringy
+    // c9
+{
+    // c10
+int16
+    // c11
+calculatedFrom
+    // c12
+,
     // c13
 }
     // c14
-packet Fill // c16a
-  // c16b
-{ // c17a
-  // c17b
-repeat i16 // c19
-Tail // c20a
-  // c20b
-, } // c22
-root
-    // c23
-packet // c24a
-  // c24b
-Trade // c25a
-  // c25b
-{
-    // c26
-float64 // c27a
-  // c27b
-Ref
-    // c28
-, // c29a
-  // c29b
-Fill
-    // c30
-, u8
-    // c32
-Note // c33
-, // c34a
-  // c34b
-u16
-    // c35
-count // c36a
-  // c36b
-@lengthOf( // c37
-Body )
-    // c39
-, match // c41
-Note // c42a
-  // c42b
-as // c43a
-  // c43b
-Body // c44a
-  // c44b
-{ [ // c46
-98 // c47a
-  // c47b
-, 101 // c49
-]
-    // c50
-: Fill // c52a
-  // c52b
-, 34 : // c55
-Reject // c56
-, } // c58
-,
-    // c59
-u32 // c60a
-  // c60b
-x // c61a
-  // c61b
-@calculatedFrom( // c62
-""CRC32"" // c63a
-  // c63b
-) // c64a
-  // c64b
-, } // c66a
-  // c66b
 ")).
-Eval vm_compute in ("<<<M1076>>>" ++ check (runes_of_ascii "
-packet// `tick` ""quote"" 'q'
-BodyLength
-{ @rightPad (	)int8
-// @lengthOf(
-// c
-BodyLength  @calculatedFrom(	""packet"" )
-// c
+Eval vm_compute in ("<<<M1736>>>" ++ check (runes_of_ascii "  options
+
+    {MetaDataX
+	=
+    ""\n"" 
 /// triple
-`
-`, u8x
-calculatedFrom
-    ,//x
-repeat
-    f32a {
-zchar[ 3 ] BodyLength , match i8i8 // " ++ [128512]%N ++ runes_of_ascii " emoji
-as A{
-    3  : packetx , ""CRC32"" //x
-:
-options1
-}  , } , @leftPad
-( ' ' )@lengthOf( Header ) repeat
-len string_ ,
-@tag( 4294967296 // @lengthOf(
-)@calculatedFrom(""" ++ [233]%N ++ runes_of_ascii "t" ++ [233]%N ++ runes_of_ascii """ )len
-repeatCount
-,  u64 i64_
-`{ , }`	, i16 o , @lengthOf( repeatCount	) @lengthOf(
-Header ) @rightPad(  '\x00'
-    //x
-    ) repeat options1{ // c
-roots @calculatedFrom(
-    ""1""// c
-)
-    `tab	here` ,repeat // @lengthOf(
-options1 zchar , repeat a1{
-    u128 {match Z9_ as x {
-    ""`tick`"" :o, ""`tick`""// packet A { u8 x, }
-:  pack , [ 255 ]
-    : Header ,3 : asx ,
-[ 255 , //	t
-""CRC32""
-]  : charz }, } ,}, char[10 ] stringy ,
-    } ,// " ++ [27880; 37322]%N ++ runes_of_ascii "
-@leftPad( )
-// packet A { u8 x, }
-// a // b
-char[
-007] len`doc` , }")).
-Eval vm_compute in ("<<<M4526>>>" ++ check (runes_of_ascii "root packet
-	falsey 
-{
+  stringy
 
-}root 
-packet
+=
+4294967296
+;
+    Packet
+	=
+    false
+;
+	As
+= ""a\\""/// triple
 
-    x 
-{ asx ,
-	stringy  { 	 //x
+	;stringy= ' '
 
-  f64  roots , char[]  // packet A { u8 x, }
-    chars
-@lengthOf(uint8x
-
-    )  
-      // `tick` ""quote"" 'q'
-
-	`
-`
-,},
-@lengthOf(len )
-
-    i8 MetaDataX	@calculatedFrom(
-""packet""
-)
-    ,  match MetaDataX
-
-as _x
-{
-	0
-    : 
-uint8x	, }
-    ,
-    // c
-	//x
-@leftPad ( 
-'\x00'
-    ) uint16// c
+    ; }
+	options {
+	}MetaData
 
 roots
-    @calculatedFrom(
-""abc""
-// `tick` ""quote"" 'q'
-  )
-    , @rightPad	(
-	' '
 
-)
-int32 leftPad@calculatedFrom(""packet""	/// triple
-) `" ++ [233]%N ++ runes_of_ascii "` ,
-
-    }
-options
-{ falsey 
-=7
-i64_
-
-= 
-int16 	 // packet A { u8 x, }
-  len
-=	false 
-
-//x
-    // @lengthOf(
-  ; 
-_x
-=
-'0'
-	;
-    asx =
-""" ++ [28040; 24687]%N ++ runes_of_ascii """ ;
-}
-
-    options{
-
-packetx
-=
-
-    uint64
-    ;len =true
-;
-}
-packet
-tag 	 // `tick` ""quote"" 'q'
-		{ 
-@leftPad
-
-    ()@calculatedFrom( 
-""abc""
-) int16
-	Pad
-@lengthOf(BodyLength 
-) ,//x
-	}
-")).
-Eval vm_compute in ("<<<M4235>>>" ++ check (runes_of_ascii "
-
-  root
-packet
-    pack  { } MetaData
-    falsey {
-
-char[]
-	A
-
-    `// not a comment`
-	, 
-}
-packet uint8x {
-repeat  o
-    {
-	u64
-    string_
-    @calculatedFrom(	// " ++ [128512]%N ++ runes_of_ascii " emoji
-""" ++ [233]%N ++ runes_of_ascii "t" ++ [233]%N ++ runes_of_ascii """
-
-),	} ,  repeat
-	string_`" ++ [28040; 24687; 31867; 22411]%N ++ runes_of_ascii "` 
-    //	t
-	  // @lengthOf(
-	,repeat 
-u 
-{ 
-packetx
-@lengthOf(
-
-    len ) 
-`doc`, 
-}
-
-    ,	@lengthOf(
-
-u8x
-
-)
-
-float32 MetaDataX @calculatedFrom(
-	""" ++ [233]%N ++ runes_of_ascii "t" ++ [233]%N ++ runes_of_ascii """ 
-)
-	,  uint8 MetaDataX`it's` ,@rightPad
-    ('\x00'
-    )
-
-repeat 
-        // a // b
-      crc  { x_y_z
-
-    @lengthOf(As  )
-
-`line1
-line2`
-    ,
-i32
-
-//	t
-  	repeatCount
+{
+    stringy
+MetaDataX
 
 ,
-	// a // b
-		// @lengthOf(
-  repeat	Pad
-    {
-	repeat  string_
-`" ++ [233]%N ++ runes_of_ascii "`
-,
-leftPad 
-{char[]	float
-	,}
-,	}
-
-,}
-
-, @calculatedFrom(
-""it's""
-)zchar[
-    42 
-]  A
-    @lengthOf(  matchKey
-
-    )
-    ,roots
-@calculatedFrom(""CRC32""	) 	 // @lengthOf(
-  `a\`
-
-,
-}
-
-")).
-Eval vm_compute in ("<<<M1134>>>" ++ check (runes_of_ascii "MetaData
-int
-    { u32 pack
-    , char f32a , trueish MetaDataX  `tab	here` /// triple
-, }options {  T=3 }
-    packet // trailing space 
-a1
-    { @calculatedFrom( ""1"" )
-uint8x
-Logon
-    ,
-    /// triple
-    @leftPad ( '0' ) char Header ,@lengthOf( packetx ) u64 zchar @calculatedFrom(""" ++ [128512]%N ++ runes_of_ascii """) `line1
-line2` , @tag( 007
-    ) @lengthOf( float )
-@tag(
-    0 ) repeat
-    uint8x { int16 // " ++ [27880; 37322]%N ++ runes_of_ascii "
-metadata
-@lengthOf( zchar
-)
-    , charz @calculatedFrom( //x
-""// no comment""  ), u8  int @lengthOf( crc
-) `
-` ,
-    }, @lengthOf(	zchar
-    )repeat leftPad falsey , i8i8 { string
-    T ``, } ,
-@rightPad ()// `tick` ""quote"" 'q'
-repeat
-o { uint64  metadata @lengthOf( pack
-    // " ++ [27880; 37322]%N ++ runes_of_ascii "
-    ) ,  },
-@leftPad
-(
-'\x00'
-    ) //
-repeat u128 leftPad // trailing space 
-,} options {  }
-")).
-Eval vm_compute in ("<<<M775>>>" ++ check (runes_of_ascii "
-MetaData tag { zchar[
-1] repeatCount
-    , Header
-rootA ,zchar[ // " ++ [128512]%N ++ runes_of_ascii " emoji
-3] string_ `two words`
-, int8 _x
-    ,
-    char[
-// " ++ [27880; 37322]%N ++ runes_of_ascii "
-/// triple
-0123456789 ] zchar`
-` ,zchar[  4294967296 ]
-    // " ++ [27880; 37322]%N ++ runes_of_ascii "
-    a1 `` , } root
-packet // " ++ [27880; 37322]%N ++ runes_of_ascii "
-Pad {@lengthOf( As)
-BodyLength { char[] a1 @lengthOf(	Pad ) ,char[]	BodyLength `doc`// @lengthOf(
-, }
-,  match options1
-as	packetx { ""\n"" : i8i8 ,[
-""CRC32"",
-    //	t
-    10 ,//	t
-""1"",
-65535 ]
-// @lengthOf(
-// " ++ [27880; 37322]%N ++ runes_of_ascii "
-: matchKey 00 :  uint8x,
-    3 :repeatCount,  ""\n"" :
-tag
-    // packet A { u8 x, }
-    , // a // b
-""x y"" : //
-u8x } , @lengthOf( calculatedFrom
-    )	msg_type body // " ++ [128512]%N ++ runes_of_ascii " emoji
-, }
-    options {
-// " ++ [27880; 37322]%N ++ runes_of_ascii "
-// a // b
-T
-//x
-// @lengthOf(
-=
-10 ;T = u16	;}packet stringy // trailing space 
-{	}
-")).
-Eval vm_compute in ("<<<M27>>>" ++ check (runes_of_ascii "root packet Packet{ char[]
-    msg_type @calculatedFrom(""a\\"" ) , repeat
-    u16 a1
-`say ""hi""`
-,f32a
-stringy
-`u8 x,` ,
-    uint16 int	, @calculatedFrom( ""// no comment""
-) repeat
-// a // b
-// c
-u8 T, zchar[
-// packet A { u8 x, }
-// " ++ [27880; 37322]%N ++ runes_of_ascii "
-65535
-//x
-//
-]  T , // `tick` ""quote"" 'q'
-repeat chars	{ char[] tag //x
-`" ++ [233]%N ++ runes_of_ascii "`,int64 A	@calculatedFrom(	""\n"" )`// not a comment`
-, match trueish as i8i8 {[ ""a\""b""]	: MetaDataX, } , len {zchar[ 65535 ]o
-    @lengthOf( body  ) `a\`//
-, string options1`two words`
-    , tag
-    // `tick` ""quote"" 'q'
-    { T `{ , }`
-    , charz
-    ,i8 // trailing space 
-uint8x ,} ,char[]packetx// @lengthOf(
-@lengthOf(// c
-roots ) ,} ,
-    }
-,//
-string  x, } // trailing space ")).
-Eval vm_compute in ("<<<M3599>>>" ++ check (runes_of_ascii "// top
+} ")).
+Eval vm_compute in ("<<<M1451>>>" ++ check (runes_of_ascii "// top
+root // c0
 packet
-    // c0
-MDSnapshotZZ // c1a
-  // c1b
-{ // c2
-u8 // c3a
+    // c1
+P // c2a
+  // c2b
+{ // c3a
   // c3b
-a
-    // c4
-, // c5
-} packet // c7
-OrderACK
+hdr { // c5a
+  // c5b
+u8 // c6a
+  // c6b
+a ,
     // c8
-{
-    // c9
-u16 // c10
-b // c11
-, }
+} // c9a
+  // c9b
+, u8 // c11a
+  // c11b
+x
+    // c12
+,
     // c13
-packet // c14
-HTTPServerInfo // c15a
-  // c15b
-{ // c16a
-  // c16b
-string // c17a
-  // c17b
-s // c18
-, } // c20
-root packet
-    // c22
-FIXMsg
-    // c23
-{ // c24a
-  // c24b
-u8 // c25a
-  // c25b
-KType
-    // c26
-, // c27
-MDSnapshotZZ // c28
-, repeat
-    // c30
-OrderACK // c31a
-  // c31b
-, // c32a
-  // c32b
-match KType as Body
-    // c36
-{ // c37a
-  // c37b
-1 // c38
-: // c39
-HTTPServerInfo , 2 : // c43a
-  // c43b
-OrderACK
-    // c44
-, // c45
-} // c46
-,
-    // c47
-} // c48
-")).
-Eval vm_compute in ("<<<M276>>>" ++ check (runes_of_ascii "packet zchar { msg_type ,
-//
-// `tick` ""quote"" 'q'
-@tag( 65535 ) repeat float32 len,
-    @lengthOf(
-// " ++ [27880; 37322]%N ++ runes_of_ascii "
-// `tick` ""quote"" 'q'
-crc )	lengthOf
-    //
-    {
-repeat float `say ""hi""` ,}	, u32 // a // b
-Packet
-@lengthOf( i8i8// a // b
-)  `
-`
-// packet A { u8 x, }
-// packet A { u8 x, }
-,
-i8i8 // a // b
-, u32 calculatedFrom  @lengthOf( BodyLength //x
-)`a\` , @lengthOf( Logon// " ++ [128512]%N ++ runes_of_ascii " emoji
-) match MetaDataX
-as	Foo  { [
-""\n"" ,
-255 ] :Packet , 3: o
-    ,
-[007] : T, }
-, match pack as A { """ ++ [28040; 24687]%N ++ runes_of_ascii """
-: _x 007	:
-//x
-// " ++ [128512]%N ++ runes_of_ascii " emoji
-metadata,
-255 :
-As
-    ,
-    7 :charz, 10 : len, } , f32 len
-, @leftPad ('\x00'  )float32 trueish , }
-")).
-Eval vm_compute in ("<<<M402>>>" ++ check (runes_of_ascii "options { // @lengthOf(
-} options{metadata = ' ' }packet
-    Packet
-{ @leftPad (
-    ' ' ) pack @calculatedFrom( ""`tick`"" ),}
-packet// " ++ [27880; 37322]%N ++ runes_of_ascii "
-T
-{@tag( 255
-)@tag(// `tick` ""quote"" 'q'
-7 )
-@calculatedFrom( ""CRC32"" ) metadata	@calculatedFrom( """" )// trailing space 
-, repeat string falsey `` , match crc as roots { 255
-    : As ,
-    42 : MetaDataX }, // @lengthOf(
-@tag( 0 )@calculatedFrom(
-    //	t
-    ""it's"")@calculatedFrom(""" ++ [233]%N ++ runes_of_ascii "t" ++ [233]%N ++ runes_of_ascii """) match string_ as a1
-{ """ ++ [233]%N ++ runes_of_ascii "t" ++ [233]%N ++ runes_of_ascii """ : body//	t
-, 7
-    : Packet,
-    // `tick` ""quote"" 'q'
-    } //
-, string options1,
-calculatedFrom MetaDataX
-,zchar[42]	i8i8
-    `` , }")).
-Eval vm_compute in ("<<<M3877>>>" ++ check (runes_of_ascii "
-
-  options
-    {  packetx  =
-'\x00' o 
-=  
-      // `tick` ""quote"" 'q'
-  ""abc""
-lengthOf 	 // @lengthOf(
-  	= 
-255
-zchar
-
-=""" ++ [128512]%N ++ runes_of_ascii """Pad // packet A { u8 x, }
-
-	=
-
-string;
-} root
-
-packet
-    options1 //x
-	{ calculatedFrom o ,
-    x	@lengthOf( leftPad// " ++ [128512]%N ++ runes_of_ascii " emoji
-),
-    match	_x as
-
-    stringy 
-{
-3	:
-i8i8
-	,}	,	string T
-	,} root 
-packet uint8x
-{ 
-len
-    /// triple
-// a // b
-	``	, } packet 
-matchKey{  match
-	calculatedFrom
-as 
-// " ++ [27880; 37322]%N ++ runes_of_ascii "
-
-	Packet { [ """ ++ [28040; 24687]%N ++ runes_of_ascii """ , ""packet""	//
-]
-	: 	 // packet A { u8 x, }
-    rootA
-
-,
-
-    } ,	} 
-options
-{
-
-    uint8x	= false ;
-	} ")).
-Eval vm_compute in ("<<<M4192>>>" ++ check (runes_of_ascii "
-root
-packet matchKey// trailing space 
-
-{  // a // b
-	  u8 roots  `two words`
-
-    ,  // " ++ [27880; 37322]%N ++ runes_of_ascii "
-    }	//	t
-	root
-	packet 
-float
-{ @rightPad (	'0' 
-)
-
-i8i8  ,packetx
-
-    @calculatedFrom( ""a\\""
-    )
-,float32
-trueish `
-`  ,
-@calculatedFrom( 
-""x y""// c
-	  )
-@lengthOf( 	 //
-
-  o
+} ")).
+Eval vm_compute in ("<<<M612>>>" ++ check (runes_of_ascii "root packet tag { }  packet MetaDataX{char[007	]
 // c
 /// triple
-)
-    @lengthOf( uint8x 
-)
-i16
-
-    Logon ,@leftPad ( ' '
-	) @lengthOf(  zchar)
-	@lengthOf( x_y_z
-
-    )
-o
-
-matchKey  `" ++ [233]%N ++ runes_of_ascii "`
-
-,  match
-    u8x as
-
-    Z9_ 
-{	""a\""b""
-:	// " ++ [27880; 37322]%N ++ runes_of_ascii "
-	  _x, }	,
-crc
-BodyLength
-
-`it's` ,
-
-    } 
-
-//
- 
-")).
-Eval vm_compute in ("<<<M397>>>" ++ check (runes_of_ascii "
-root
-packet rootA	{@calculatedFrom( """ ++ [28040; 24687]%N ++ runes_of_ascii """ ) u  `" ++ [233]%N ++ runes_of_ascii "` , body , // " ++ [27880; 37322]%N ++ runes_of_ascii "
-x
-    @lengthOf( options1 // @lengthOf(
-)
-,
-// " ++ [128512]%N ++ runes_of_ascii " emoji
-// c
-matchKey , @calculatedFrom( ""packet"" ) char[] f32a , u8 options1	`tab	here`
-    , } packet Packet//
-{
-    } options
-    { chars = 00 ;
-Foo// packet A { u8 x, }
-= true ;trueish
-    // " ++ [27880; 37322]%N ++ runes_of_ascii "
-    = ""1""; zchar = f64; matchKey =// " ++ [27880; 37322]%N ++ runes_of_ascii "
-false ; } packet metadata {
-    @leftPad
-    ( '\x00' ) f32 charz @calculatedFrom(  ""{,}""
-)
-    `// not a comment`
-,@calculatedFrom(""1""
-) repeat int8 crc ,	}
-")).
-Eval vm_compute in ("<<<M3645>>>" ++ check (runes_of_ascii "
-options{	LittleEndian
-=	false
-	;ArrayPrefixLenType
-=
-	u8
-
-;  FixedStringPadChar
-
-    =
-
-'0'
-;  } packet Order {
-	InNote94{ f32
-    f1
-,f64
-Side2	,
-    repeat
-InTail47
-{ char[] 
-seqNo
-
-,
-    char[] Tail
-    , char[] lastPx
-, } , },zchar[
-
-    7
-
-    ]  f1  ,u8 Side2,
-} 
-root
-
-    packet
-
-Reject{
-repeat
-
-    char[	4 ]  Flags,  InPrice63{ InSeqno41
-
-{repeat i8
-	OrderId ,  repeat
-    i32  clOrdID ,	char[	9
-]
-	tag7
-	,char[]
-	lastPx , }
-	,
-Order ,
-
-    uint8 Side2	,
-}
-
-, } ")).
-Eval vm_compute in ("<<<M4483>>>" ++ check (runes_of_ascii "packet x {
-    repeat string_ {
-        repeat asx Foo,
-        int16 i8i8,
-        char[] matchKey,
-        // @lengthOf(
-        // trailing space 
-        match calculatedFrom as roots {
-            3 : x_y_z,
-        },
-    },
-    @lengthOf(x)
-    repeat o `say ""hi""`,//	t
-    char[] string_ `" ++ [28040; 24687; 31867; 22411]%N ++ runes_of_ascii "`,
-    @lengthOf(f32a)
-    match Pad as A {
-        ""a	b"" : u128,
-        [""\" ++ [233]%N ++ runes_of_ascii """, 65535, 255, ""CRC32"", 1] : i8i8,
-        0123456789 : falsey,
-    },
-}
-
-packet zchar {
-}")).
-Eval vm_compute in ("<<<M790>>>" ++ check (runes_of_ascii "
-options { } options {a1
-= ' ' falsey
-=
-    //	t
-    false ; f32a =10 ;
-    // packet A { u8 x, }
-    } packet u8x
-    { repeat BodyLength	{ calculatedFrom// " ++ [128512]%N ++ runes_of_ascii " emoji
-@calculatedFrom( ""{,}"" ) `{ , }` , uint8
-MetaDataX `say ""hi""` // `tick` ""quote"" 'q'
-,
-    },}
-MetaData matchKey
-    {
-i8 roots
-    `
-` ,
-i64	rootA`say ""hi""` ,/// triple
-f64
-chars
-    //x
-    `" ++ [28040; 24687; 31867; 22411]%N ++ runes_of_ascii "` , zchar[ 3
-// packet A { u8 x, }
-//
-] asx `" ++ [233]%N ++ runes_of_ascii "` // a // b
-,
-string msg_type	, }
-")).
-Eval vm_compute in ("<<<M1333>>>" ++ check (runes_of_ascii "root	packet chars{
-uint16
-//x
+asx  @calculatedFrom( ""a\""b""
+) `say ""hi""`// " ++ [27880; 37322]%N ++ runes_of_ascii "
+,  @tag(4294967296 )
+    char[1//x
+] packetx @calculatedFrom(""a\""b""")).
+Eval vm_compute in ("<<<M189>>>" ++ check (runes_of_ascii "MetaData  msg_type	{ Packet
 // @lengthOf(
-As
-@lengthOf( len )
-,
+// trailing space 
+int , char[3 ] Foo`// not a comment`
+    // `tick` ""quote"" 'q'
+    ,
+zchar[ 7
+    ]
+uint8x,
+leftPad crc `
+`, }")).
+Eval vm_compute in ("<<<M475>>>" ++ check (runes_of_ascii "packet
+    $// `tick` ""quote"" 'q'
+    crc
+// packet A { u8 x, }
+//	t
+{
+u32 a1 ,
     // trailing space 
-    repeat char[ 4294967296
-]	Header ,@calculatedFrom( ""a	b""
-    ) @tag(
-1
-)@lengthOf( uint8x //
-) T msg_type ,
-@lengthOf(
-u8x )lengthOf int
-    // packet A { u8 x, }
-    `" ++ [28040; 24687; 31867; 22411]%N ++ runes_of_ascii "` ,
-@leftPad
-('0'
-) @calculatedFrom( ""a	b"") char[] packetx`say ""hi""`
-, uint8x	{ float32 tag , }
-    , @leftPad ( )char[ 3  ]
-    msg_type `" ++ [233]%N ++ runes_of_ascii "` ,
-    } options{
-}
+    roots
+charz //
+`two words`,	}
+    MetaData int {
+} /// triple")).
+Eval vm_compute in ("<<<M699>>>" ++ check (runes_of_ascii "root packet len // trailing space 
+{
+// " ++ [27880; 37322]%N ++ runes_of_ascii "
+//	t
+char[10
+] metadata	@lengthOf( o ) `crlf
+line`,
+    @rightPad
+( ' '
+) string
+    @calculatedFrom( Header ""a\\""
+    ), }
 ")).
-Eval vm_compute in ("<<<M902>>>" ++ check (runes_of_ascii "// c
-options
-{// " ++ [27880; 37322]%N ++ runes_of_ascii "
-MetaDataX = 0} root packet Z9_{char[]  packetx `doc`,BodyLength
-zchar
-,float32
-BodyLength , @calculatedFrom(
-""\" ++ [233]%N ++ runes_of_ascii """
-) match trueish  as// a // b
-T { 255
-: uint8x // @lengthOf(
-, // packet A { u8 x, }
-""" ++ [233]%N ++ runes_of_ascii "t" ++ [233]%N ++ runes_of_ascii """ :
-    charz
-,""a\\"" : falsey ""{,}"" : MetaDataX ,  }
-,// trailing space 
-}
-    options {} options {msg_type = 42 pack =
-true repeatCount
-=4294967296 ; leftPad =
-    ""it's"" // " ++ [27880; 37322]%N ++ runes_of_ascii "
-;
-    }")).
-Eval vm_compute in ("<<<M3778>>>" ++ check (runes_of_ascii "/// triple
-MetaData x {
-    uint64 u `doc`,
+Eval vm_compute in ("<<<M399>>>" ++ check (runes_of_ascii "packet
+    // `tick` ""quote"" 'q'
+    crc
+// packet A { u8 x, }
+//	t
+{
+ a1 ,
+    // trailing space 
+    roots
+charz //
+`two words`,	}
+    MetaData int {
+} /// triple")).
+Eval vm_compute in ("<<<M719>>>" ++ check (runes_of_ascii "root packet len // trailing space 
+{
+// " ++ [27880; 37322]%N ++ runes_of_ascii "
+//	t
+char[10
+] metadata	@lengthOf( o ) `crlf
+line`,
+    
+( ' '
+) string
+    Header @calculatedFrom( ""a\\""
+    ), }
+")).
+Eval vm_compute in ("<<<M1971>>>" ++ check (runes_of_ascii "packet A {
+    match k as n {
+        [
+            ""a"", ""bb"", ""c c"", ""d"", ""e"",
+            ""f"", ""g"", ""h"", ""i""
+        ] : B,
+        2 : C,
+    },
+}")).
+Eval vm_compute in ("<<<M1774>>>" ++ check (runes_of_ascii "packet A {
+    match k as n {
+        [
+            ""a"", ""bb"", ""c c"", ""d"", ""e"",
+            ""f"", ""g""
+        ] : B,
+        2 : C,
+    },
+}")).
+Eval vm_compute in ("<<<M577>>>" ++ check (runes_of_ascii "root packet tag { }  packet MetaDataX{char[007	]
+// c
+/// triple
+asx  @calculatedFrom( ""a\""b""
+) `say ""hi""`// " ++ [27880; 37322]%N ++ runes_of_ascii "
+,  @tag(4294967296")).
+Eval vm_compute in ("<<<M1270>>>" ++ check (runes_of_ascii "root packet matchKey { zchar[ 3 ] pack @calculatedFrom( ""a	b"" ) `doc` , } options { } MetaData A { int8 msg_type , }
+// c
+")).
+Eval vm_compute in ("<<<M1249>>>" ++ check (runes_of_ascii "root packet matchKey { zchar[ 3 ] pack @calculatedFrom( ""a	b"" ) `doc` , } // c
+options { } MetaData A { int8 msg_type , }")).
+Eval vm_compute in ("<<<M1464>>>" ++ check (runes_of_ascii "
+
+  packet B
+
+{
+
+u8
+    a
+    , string
+s	,
 }
 
-root packet i8i8 {
-    uint32 zchar @lengthOf(chars),
-    string rootA @calculatedFrom(""\n""),
+root  packet P
+
+{
+	u16 
+L
+@lengthOf(B ) ,	B,
+
+    u8
+    t
+    ,
+}
+")).
+Eval vm_compute in ("<<<M1851>>>" ++ check (runes_of_ascii "packet A {
+    u16 len @lengthOf(body) `
+    `,
+    u32 crc @calculatedFrom(""CRC32"") `
+    `,
+    string body,
+}")).
+Eval vm_compute in ("<<<M1830>>>" ++ check (runes_of_ascii "  packet metadata  
+      // c
+  	{ 
+Logon
+{A `" ++ [28040; 24687; 31867; 22411]%N ++ runes_of_ascii "` ,  tag o ,
+    } 
+, zchar  len`// not a comment` ,  }
+
+")).
+Eval vm_compute in ("<<<M926>>>" ++ check (runes_of_ascii "packet A {
+    u16 len @lengthOf(body) `
+`,
+    u32 crc @calculatedFrom(""CRC32"") `
+`,
+    string body,
+}")).
+Eval vm_compute in ("<<<M1760>>>" ++ check (runes_of_ascii "
+packet metadata	{ 
+Logon // c
+	{ A 
+`" ++ [28040; 24687; 31867; 22411]%N ++ runes_of_ascii "`, tag  o, } ,zchar len
+`// not a comment`
+,
+
+    }
+")).
+Eval vm_compute in ("<<<M102>>>" ++ check (runes_of_ascii "
+options {
+a1/// triple
+=""1""
+;
+trueish	=  i64 ; stringy=""" ++ [128512]%N ++ runes_of_ascii """
+; u8x
+= 255 ;
+u128
+=
+""`tick`""; }
+
+")).
+Eval vm_compute in ("<<<M1594>>>" ++ check (runes_of_ascii "packet chars {
 }
 
 packet MetaDataX {
-    i32 A @lengthOf(string_) ``,
-    @calculatedFrom(""a\\"")
-    @lengthOf(roots)
-    msg_type asx `crlf
-        line`,
-    @lengthOf(metadata)
-    @calculatedFrom(""" ++ [28040; 24687]%N ++ runes_of_ascii """)
-    @leftPad()
-    repeat string o `// not a comment`,
-}//x")).
-Eval vm_compute in ("<<<M1089>>>" ++ check (runes_of_ascii "packet	u8x /// triple
-{ @calculatedFrom( ""\" ++ [233]%N ++ runes_of_ascii """ ) zchar[
-255 ]
-A /// triple
-@calculatedFrom( ""a	b"" )
-    ,string MetaDataX @lengthOf( Pad  ) , f32a @calculatedFrom(
-""a\""b""
-    ) ,  zchar[
-4294967296 ] tag @calculatedFrom( """ ++ [28040; 24687]%N ++ runes_of_ascii """ // `tick` ""quote"" 'q'
-)
-,@tag( 0123456789 )
-    @lengthOf(  Header)int64 A `` ,
-char[]
-/// triple
-// packet A { u8 x, }
-x_y_z ,} packet	Logon {	}
-")).
-Eval vm_compute in ("<<<M245>>>" ++ check (runes_of_ascii "root packet  roots
-{ falsey@calculatedFrom(""a\""b"" ) ,
-    @lengthOf(
-A )Header @calculatedFrom( ""packet""
-) `u8 x,` ,
-@leftPad  (' '
-) @lengthOf(
-    calculatedFrom)
-// `tick` ""quote"" 'q'
-// packet A { u8 x, }
-match rootA as x_y_z {42	:
-    //	t
-    len, }, } options //x
-{ chars =// c
-4294967296 ;
-    BodyLength
-    = 0123456789 roots
-    = ""a\""b"";
-} //")).
-Eval vm_compute in ("<<<M3840>>>" ++ check (runes_of_ascii "
-MetaData T
-{
-
-    }
-	root packet  MetaDataX { 
-// packet A { u8 x, }
-
-  // `tick` ""quote"" 'q'
-@lengthOf(	trueish
-
-    )
-
-    repeat 
-  //
-  //	t
-      BodyLength`` ,
-    }MetaData 
-A	// `tick` ""quote"" 'q'
-{float32  trueish, 
-}
-
-    packet
-
-o 
+    @tag(42)
+    i16 string_,
+    repeat x `say ""hi""`,
+}")).
+Eval vm_compute in ("<<<M854>>>" ++ check (runes_of_ascii "packet A {
+  match k as n {
+    [""a"", 22, ""c c"", 4, ""e"", 66, ""g"", 8] : B
+    2 : C
+  },
+}")).
+Eval vm_compute in ("<<<M1208>>>" ++ check (runes_of_ascii "MetaData float { float64 charz `
+` , } root packet chars { @rightPad ( '0' // c
+) Foo , }")).
+Eval vm_compute in ("<<<M1419>>>" ++ check (runes_of_ascii "packet chars { } packet MetaDataX { @tag( 42 ) i16 string_
+// c
+, repeat x `say ""hi""` , }")).
+Eval vm_compute in ("<<<M2018>>>" ++ check (runes_of_ascii "packet Foo {
     //x
-  {
-@lengthOf( Foo
-	)
-i8i8
-stringy , 
-}
-MetaData trueish 
-{	string
-    o , } ")).
-Eval vm_compute in ("<<<M347>>>" ++ check (runes_of_ascii "packet  f32a { }packet
-metadata
-{
-@calculatedFrom(
-""\" ++ [233]%N ++ runes_of_ascii """
-) repeat _x { string
-    // a // b
-    falsey , } ,
-@calculatedFrom( ""it's"" ) As leftPad `a\`
-,	@calculatedFrom( ""abc""
-) char[ //	t
-0 ]roots	,  @tag(
-    00 )match Pad as	roots
-{ 10 :x_y_z , 00 :  len [ ""// no comment""	]// a // b
-:  T }
-    , a1 Header `" ++ [233]%N ++ runes_of_ascii "`
-, // " ++ [27880; 37322]%N ++ runes_of_ascii "
-}")).
-Eval vm_compute in ("<<<M2048>>>" ++ check (runes_of_ascii "MetaData
-    u { }  options {
-// c
-// @lengthOf(
-float = int8 ;rootA =false ; As =	int16 // `tick` ""quote"" 'q'
-repeatCount
-    // trailing space 
-    =
-    int16
-; u8x =
-    //	t
-    '\x00' ; } options	{
-    repeatCount
-= 0
-u128
-    //
-    = false ; i64_
-// trailing space 
-// `tick` ""quote"" 'q'
-= '0' float64 //	t
-}
-")).
-Eval vm_compute in ("<<<M1873>>>" ++ check (runes_of_ascii "MetaData
-    u { asx  options {
-// c
-// @lengthOf(
-float = int8 ;rootA =false ; As =	int16 // `tick` ""quote"" 'q'
-repeatCount
-    // trailing space 
-    =
-    int16
-; u8x =
-    //	t
-    '\x00' ; } options	{
-    repeatCount
-= 0
-u128
-    //
-    = false ; i64_
-// trailing space 
-// `tick` ""quote"" 'q'
-= '0' ; //	t
-}
-")).
-Eval vm_compute in ("<<<M987>>>" ++ check (runes_of_ascii "options
-{ // a // b
-Header //
-=
-""// no comment""As
-    = ""`tick`""Header
-    = f32// packet A { u8 x, }
-; leftPad
-=
-10	o =
-    '\x00'
-    }// " ++ [128512]%N ++ runes_of_ascii " emoji
-packet metadata
-//x
-/// triple
-{ @rightPad
-    ('0') @leftPad
-// c
-// trailing space 
-(
-'\x00' )
-    @rightPad ( )
-    string string_`say ""hi""`,
-    } options  {
-}")).
-Eval vm_compute in ("<<<M1937>>>" ++ check (runes_of_ascii "MetaData
-    u { }  options {
-// c
-// @lengthOf(
-float = int8 ;rootA =false ; As =	repeatCount // `tick` ""quote"" 'q'
-int16
-    // trailing space 
-    =
-    int16
-; u8x =
-    //	t
-    '\x00' ; } options	{
-    repeatCount
-= 0
-u128
-    //
-    = false ; i64_
-// trailing space 
-// `tick` ""quote"" 'q'
-= '0' ; //	t
-}
-")).
-Eval vm_compute in ("<<<M1865>>>" ++ check (runes_of_ascii "MetaData
-    u  }  options {
-// c
-// @lengthOf(
-float = int8 ;rootA =false ; As =	int16 // `tick` ""quote"" 'q'
-repeatCount
-    // trailing space 
-    =
-    int16
-; u8x =
-    //	t
-    '\x00' ; } options	{
-    repeatCount
-= 0
-u128
-    //
-    = false ; i64_
-// trailing space 
-// `tick` ""quote"" 'q'
-= '0' ; //	t
-}
-")).
-Eval vm_compute in ("<<<M2040>>>" ++ check (runes_of_ascii "MetaData
-    u { }  options {
-// c
-// @lengthOf(
-float = int8 ;rootA =false ; As =	int16 // `tick` ""quote"" 'q'
-repeatCount
-    // trailing space 
-    =
-    int16
-; u8x =
-    //	t
-    '\x00' ; } options	{
-    repeatCount
-= 0
-u128
-    //
-    = false ; i64_
-// trailing space 
-// `tick` ""quote"" 'q'
-=  ; //	t
-}
-")).
-Eval vm_compute in ("<<<M822>>>" ++ check (runes_of_ascii "packet
-packetx {
-    match i64_ as roots
-// trailing space 
-// c
-{ 7
-:
-x 42 :  asx
-    // @lengthOf(
-    , 65535 : i64_ [ 00 // `tick` ""quote"" 'q'
-, 1 ] : Z9_ [ // c
-""\n"",3,
-007 ]
-    :float ,
-} , }MetaData metadata {	char[]Header `" ++ [28040; 24687; 31867; 22411]%N ++ runes_of_ascii "` ,Foo stringy
-, uint64 body , f32	a1
-    , } packet
-    chars{ }")).
-Eval vm_compute in ("<<<M2055>>>" ++ check (runes_of_ascii "MetaData
-    u { }  options {
-// c
-// @lengthOf(
-float = int8 ;rootA =false ; As =	int16 // `tick` ""quote"" 'q'
-repeatCount
-    // trailing space 
-    =
-    int16
-; u8x =
-    //	t
-    '\x00' ; } options	{
-    repeatCount
-= 0
-u128
-    //
-    = false ; i64_
-// trailing space 
-// `tick` ""quote"" 'q")).
-Eval vm_compute in ("<<<M160>>>" ++ check (runes_of_ascii "packet matchKey
-{ // packet A { u8 x, }
-zchar[ 65535
-//	t
-// packet A { u8 x, }
-] Foo @calculatedFrom(
-// " ++ [128512]%N ++ runes_of_ascii " emoji
-// a // b
-""\n"" ) ``, @tag(10 ) repeat
-x Logon`
-` , @calculatedFrom(
-    ""it's"" ) @rightPad (
-) zchar[ 255 ]	lengthOf
-    // @lengthOf(
-    , repeat uint8x`" ++ [233]%N ++ runes_of_ascii "`
-,
-    }
-")).
-Eval vm_compute in ("<<<M4388>>>" ++ check (runes_of_ascii "  packet
-
-    options1
-{
-
-    @leftPad
-(
-'0'	)
-	repeat
-char[ 1
-]	// " ++ [27880; 37322]%N ++ runes_of_ascii "
-  roots  `
-` ,
-i32
-A `
-` 
-,
-    repeat
-    char[
-	3] stringy  // `tick` ""quote"" 'q'
-	,
-repeat
-
-f64	Z9_
-
-    `tab	here` ,
-	}packet  T{@tag(00
-
-    )repeat
-	float`say ""hi""`	,	}	/// triple
-")).
-Eval vm_compute in ("<<<M1613>>>" ++ check (runes_of_ascii "packet
-//	t
-// trailing space 
-_x {
-// packet A { u8 x, }
-// c
-char[
-3
-    ] u8x @lengthOf(
-u8x ) , @calculatedFrom(""" ++ [128512]%N ++ runes_of_ascii """ // @lengthOf(
-)
-i16	Foo
-@lengthOf(	string_
-    )`doc`	, repeat	i64 metadata , @lengthOf( @lengthOf( string_
-) i8 // c
-u  `line1
-line2`	,
-}
-")).
-Eval vm_compute in ("<<<M4539>>>" ++ check (runes_of_ascii "
-MetaData As
-
-{
-	BodyLength roots 
-, uint8x  uint8x  ,}  packet pack
-
-    /// triple
-	{ 
-lengthOf`crlf
-line`
-, char  i8i8
-,@tag(	4294967296
-    )
-	zchar[ 1
-
-] Header `say ""hi""`,@tag(
-
-    4294967296
-
-    ) string
-
-    chars  ,
-}
-// trailing space ")).
-Eval vm_compute in ("<<<M1590>>>" ++ check (runes_of_ascii "packet
-//	t
-// trailing space 
-_x {
-// packet A { u8 x, }
-// c
-char[
-3
-    ] u8x @lengthOf(
-u8x ) , @calculatedFrom(""" ++ [128512]%N ++ runes_of_ascii """ // @lengthOf(
-)
-i16	Foo
-@lengthOf(	string_
-    )`doc`	u16 repeat	i64 metadata , @lengthOf( string_
-) i8 // c
-u  `line1
-line2`	,
-}
-")).
-Eval vm_compute in ("<<<M1494>>>" ++ check (runes_of_ascii "packet
-//	t
-// trailing space 
-{ _x
-// packet A { u8 x, }
-// c
-char[
-3
-    ] u8x @lengthOf(
-u8x ) , @calculatedFrom(""" ++ [128512]%N ++ runes_of_ascii """ // @lengthOf(
-)
-i16	Foo
-@lengthOf(	string_
-    )`doc`	, repeat	i64 metadata , @lengthOf( string_
-) i8 // c
-u  `line1
-line2`	,
-}
-")).
-Eval vm_compute in ("<<<M1639>>>" ++ check (runes_of_ascii "packet
-//	t
-// trailing space 
-_x {
-// packet A { u8 x, }
-// c
-char[
-3
-    ] u8x @lengthOf(
-u8x ) , @calculatedFrom(""" ++ [128512]%N ++ runes_of_ascii """ // @lengthOf(
-)
-i16	Foo
-@lengthOf(	string_
-    )`doc`	, repeat	i64 metadata , @lengthOf( string_
-) i8 // c
-u  ,	`line1
-line2`
-}
-")).
-Eval vm_compute in ("<<<M1527>>>" ++ check (runes_of_ascii "packet
-//	t
-// trailing space 
-_x {
-// packet A { u8 x, }
-// c
-char[
-3
-    ] u8x @lengthOf(
- ) , @calculatedFrom(""" ++ [128512]%N ++ runes_of_ascii """ // @lengthOf(
-)
-i16	Foo
-@lengthOf(	string_
-    )`doc`	, repeat	i64 metadata , @lengthOf( string_
-) i8 // c
-u  `line1
-line2`	,
-}
-")).
-Eval vm_compute in ("<<<M1525>>>" ++ check (runes_of_ascii "packet
-//	t
-// trailing space 
-_x {
-// packet A { u8 x, }
-// c
-char[
-3
-    ] u8x 3
-u8x ) , @calculatedFrom(""" ++ [128512]%N ++ runes_of_ascii """ // @lengthOf(
-)
-i16	Foo
-@lengthOf(	string_
-    )`doc`	, repeat	i64 metadata , @lengthOf( string_
-) i8 // c
-u  `line1
-line2`	,
-}
-")).
-Eval vm_compute in ("<<<M3777>>>" ++ check (runes_of_ascii "packet Sub {
-    u8 a,
-    @calculatedFrom(""CRC16"")
-    u16 SubSum,
-}
-
-root packet Frame {
-    u16 MsgType,
-    u16 BodyLen @lengthOf(Body),
-    Sub Body,
-    string note,
-    @calculatedFrom(""CRC16"")
-    u16 Checksum,
-    u8 tail,
-}")).
-Eval vm_compute in ("<<<M3426>>>" ++ check (runes_of_ascii "// top
-packet // c0a
-  // c0b
-o { repeat
-    // c3
-Logon uint8x // c5
-,
-    // c6
-} options // c8
-{ // c9
-asx
-    // c10
-= // c11a
-  // c11b
-zchar[ // c12
-3
-    // c13
-] stringy // c15
-=
-    // c16
-'\x00' // c17
-}
-    // c18
-")).
-Eval vm_compute in ("<<<M1762>>>" ++ check (runes_of_ascii "options { trueish = ""`tick`"" ; string_= """ ++ [233]%N ++ runes_of_ascii "t" ++ [233]%N ++ runes_of_ascii """
-    // c
-    } root
-    packet body { stringy @calculatedFrom(
-""a	b"" ) `line1
-line2` `line1
-line2` , }
-packet Logon {
-    @leftPad(
-    ' ' ) //	t
-u16 string_ `u8 x,` ,
-}
-")).
-Eval vm_compute in ("<<<M488>>>" ++ check (runes_of_ascii "MetaData x	{ uint32 u8x `" ++ [28040; 24687; 31867; 22411]%N ++ runes_of_ascii "`
-    ,}
-// packet A { u8 x, }
-// " ++ [128512]%N ++ runes_of_ascii " emoji
-MetaData o {
-    }
-    // packet A { u8 x, }
-    packet
-pack	{ // packet A { u8 x, }
-repeat
-    zchar[
-4294967296 // a // b
-]
-roots
-    , }")).
-Eval vm_compute in ("<<<M952>>>" ++ check (runes_of_ascii "
-packet roots{pack, @calculatedFrom( ""it's""
-)
-    MetaDataX @lengthOf( u
-) , @lengthOf(//x
-falsey  ) metadata _x	`doc` , } options{ BodyLength =	""" ++ [28040; 24687]%N ++ runes_of_ascii """; Packet = 0123456789 ; T=
-    ' ' ; T = 4294967296
-;
-    }
-")).
-Eval vm_compute in ("<<<M1807>>>" ++ check (runes_of_ascii "options { trueish = ""`tick`"" ; string_= """ ++ [233]%N ++ runes_of_ascii "t" ++ [233]%N ++ runes_of_ascii """
-    // c
-    } root
-    packet body { stringy @calculatedFrom(
-""a	b"" ) `line1
-line2` , }
-packet Logon {
-    @leftPad(
-    ' ' ) ) //	t
-u16 string_ `u8 x,` ,
-}
-")).
-Eval vm_compute in ("<<<M1689>>>" ++ check (runes_of_ascii "options { trueish { ""`tick`"" ; string_= """ ++ [233]%N ++ runes_of_ascii "t" ++ [233]%N ++ runes_of_ascii """
-    // c
-    } root
-    packet body { stringy @calculatedFrom(
-""a	b"" ) `line1
-line2` , }
-packet Logon {
-    @leftPad(
-    ' ' ) //	t
-u16 string_ `u8 x,` ,
-}
-")).
-Eval vm_compute in ("<<<M1828>>>" ++ check (runes_of_ascii "options { trueish = ""`tick`"" ; string_= """ ++ [233]%N ++ runes_of_ascii "t" ++ [233]%N ++ runes_of_ascii """
-    // c
-    } root
-    packet body { stringy @calculatedFrom(
-""a	b"" ) `line1
-line2` , }
-packet Logon {
-    @leftPad(
-    ' ' ) //	t
-u16 string_ `u8 x,` }
-,
-")).
-Eval vm_compute in ("<<<M1721>>>" ++ check (runes_of_ascii "options { trueish = ""`tick`"" ; string_= """ ++ [233]%N ++ runes_of_ascii "t" ++ [233]%N ++ runes_of_ascii """
-    // c
-    } 
-    packet body { stringy @calculatedFrom(
-""a	b"" ) `line1
-line2` , }
-packet Logon {
-    @leftPad(
-    ' ' ) //	t
-u16 string_ `u8 x,` ,
-}
-")).
-Eval vm_compute in ("<<<M657>>>" ++ check (runes_of_ascii "packet u8x{@calculatedFrom( """ ++ [128512]%N ++ runes_of_ascii """ )
-rootA @lengthOf(stringy ), lengthOf ,@lengthOf(  u8x )
-    i64_ @calculatedFrom( ""a\""b""//x
-) ,
-@lengthOf( matchKey )
-@lengthOf( rootA	) float32 trueish
-,  } // " ++ [27880; 37322]%N)).
-Eval vm_compute in ("<<<M1761>>>" ++ check (runes_of_ascii "options { trueish = ""`tick`"" ; string_= """ ++ [233]%N ++ runes_of_ascii "t" ++ [233]%N ++ runes_of_ascii """
-    // c
-    } root
-    packet body { stringy @calculatedFrom(
-""a	b"" )  , }
-packet Logon {
-    @leftPad(
-    ' ' ) //	t
-u16 string_ `u8 x,` ,
-}
-")).
-Eval vm_compute in ("<<<M804>>>" ++ check (runes_of_ascii "//	t
-MetaData
-    chars { falsey pack , packetx zchar
-    `
-`	, } // " ++ [128512]%N ++ runes_of_ascii " emoji
-packet u128
-    {@lengthOf(tag ) @tag(
-    // trailing space 
-    1)
-@rightPad
-(
-'\x00'
-    ) i64 T
-,
-}")).
-Eval vm_compute in ("<<<M3888>>>" ++ check (runes_of_ascii "options { _x =
-	i32
-
-    } 
-options
-
-    {	o
-
-= 	 /// triple
-    false
-; chars= ""\n""  }
-root  packet Pad
-
-/// triple
-    // packet A { u8 x, }
-  {
-    chars 
-// a // b
-,}
-")).
-Eval vm_compute in ("<<<M4436>>>" ++ check (runes_of_ascii "  // packet A { u8 x, }
-	options
-
-{	matchKey=
-    true
-	;
-}	MetaData int
-    { uint16
-
-packetx `tab	here`
-	, }
-options /// triple
-  {
-	msg_type=	""""
-; }	// @lengthOf(
- 
-")).
-Eval vm_compute in ("<<<M1224>>>" ++ check (runes_of_ascii "options //
-{} packet	tag //	t
-{ u64
-u @lengthOf(u128 ) , char[]Pad
-    // a // b
-    @lengthOf( crc) ,
-    i32 options1@lengthOf(msg_type// c
-) ,} options {
-    }")).
-Eval vm_compute in ("<<<M4265>>>" ++ check (runes_of_ascii "
-root packet
-matchKey
-
-{ zchar[3  ]
-pack
-
-    @calculatedFrom(
-""a	b"" )  `doc`
-
-    , } 
-options
-        // c
-    { }
-
-MetaData
-    A
-    { int8 msg_type,}
-
-")).
-Eval vm_compute in ("<<<M2095>>>" ++ check (runes_of_ascii "options{
-_x
-= true true
-} options
-{ o	= /// triple
-false
-    ; chars
-= ""\n"" } root packet	Pad
-/// triple
-// packet A { u8 x, }
-{	chars
-    // a // b
-    ,}")).
-Eval vm_compute in ("<<<M2404>>>" ++ check (runes_of_ascii "// c
-packet x { @lengthOf( metadata ) repeat lengthOf
-, ,a1{
-trueish	,// c
-repeat//	t
-MetaDataX , } , zchar[
-    42	] rootA // `tick` ""quote"" 'q'
-,
-    }
-")).
-Eval vm_compute in ("<<<M2150>>>" ++ check (runes_of_ascii "options{
-_x
-= true
-} options
-{ o	= /// triple
-false
-    ; chars
-= ""\n"" } } root packet	Pad
-/// triple
-// packet A { u8 x, }
-{	chars
-    // a // b
-    ,}")).
-Eval vm_compute in ("<<<M2192>>>" ++ check (runes_of_ascii "options{
-_x
-= true
-} options
-{ o	= /// triple
-false
-  /  ; chars
-= ""\n"" } root packet	Pad
-/// triple
-// packet A { u8 x, }
-{	chars
-    // a // b
-    ,}")).
-Eval vm_compute in ("<<<M2121>>>" ++ check (runes_of_ascii "options{
-_x
-= true
-} options
-{ o	false /// triple
-=
-    ; chars
-= ""\n"" } root packet	Pad
-/// triple
-// packet A { u8 x, }
-{	chars
-    // a // b
-    ,}")).
-Eval vm_compute in ("<<<M2119>>>" ++ check (runes_of_ascii "options{
-_x
-= true
-} options
-{ o	 /// triple
-false
-    ; chars
-= ""\n"" } root packet	Pad
-/// triple
-// packet A { u8 x, }
-{	chars
-    // a // b
-    ,}")).
-Eval vm_compute in ("<<<M4346>>>" ++ check (runes_of_ascii "  root	packet
-    matchKey
-{  zchar[
-
-3
-	] pack @calculatedFrom( 
-	// c
-
-	""a	b""
-)
-    `doc` 
-, }
-options 
-{}MetaData 
-A{ 
-int8 msg_type
-    ,
-}
-
-")).
-Eval vm_compute in ("<<<M2420>>>" ++ check (runes_of_ascii "// c
-packet x { @lengthOf( metadata ) repeat 
-,a1{
-trueish	,// c
-repeat//	t
-MetaDataX , } , zchar[
-    42	] rootA // `tick` ""quote"" 'q'
-,
-    }
-")).
-Eval vm_compute in ("<<<M4477>>>" ++ check (runes_of_ascii "packet A {
-    Inner {
-        u8 x `a
-        
-        b`,
-        Deep {
-            u8 y `a
-            
-            b`,
-        },
+    uint8x,
+    match len as options1 {
+        3 : i64_,
     },
 }")).
-Eval vm_compute in ("<<<M559>>>" ++ check (runes_of_ascii "packet trueish { match
-    falsey as
-    leftPad { // " ++ [128512]%N ++ runes_of_ascii " emoji
-""// no comment"":
-// " ++ [128512]%N ++ runes_of_ascii " emoji
-//
-leftPad } , repeatCount
-string_ `{ , }`
-,}")).
-Eval vm_compute in ("<<<M1464>>>" ++ check (runes_of_ascii "
-packet
-    falsey { Header@calculatedFrom(""packet""  ) , char[
-    0123456789 ] packetx
-    , @calculatedFrom( // `tick` ""quote"" 'q'")).
-Eval vm_compute in ("<<<M3961>>>" ++ check (runes_of_ascii "  MetaData
-    float 
-
+Eval vm_compute in ("<<<M1149>>>" ++ check (runes_of_ascii "packet metadata { Logon { A `" ++ [28040; 24687; 31867; 22411]%N ++ runes_of_ascii "` , tag o , } ,
 // c
-    {
-	float64 charz  `
-` 
-, }	root 
-packet
-
-    chars  {@rightPad
-
-    (
-'0'
-
-)
-    Foo 
-,
-	}
-")).
-Eval vm_compute in ("<<<M4597>>>" ++ check (runes_of_ascii "options {
-    MetaDataX = 3;
-    matchKey = i32
-    T = 1
+zchar len `// not a comment` , }")).
+Eval vm_compute in ("<<<M1354>>>" ++ check (runes_of_ascii "packet o { repeat Logon uint8x , } // c
+options { asx = zchar[ 3 ] stringy = '\x00' }")).
+Eval vm_compute in ("<<<M1600>>>" ++ check (runes_of_ascii "MetaData body {
+    i64 pack `it's`,
 }
 
-packet Header {
-    string i64_ @lengthOf(Packet) `say ""hi""`,
+packet stringy {
+    int16 calculatedFrom,
 }")).
-Eval vm_compute in ("<<<M3314>>>" ++ check (runes_of_ascii "root packet // c
-matchKey { zchar[ 3 ] pack @calculatedFrom( ""a	b"" ) `doc` , } options { } MetaData A { int8 msg_type , }")).
-Eval vm_compute in ("<<<M3346>>>" ++ check (runes_of_ascii "root packet matchKey { zchar[ 3 ] pack @calculatedFrom( ""a	b"" ) `doc` , } options { } MetaData // c
-A { int8 msg_type , }")).
-Eval vm_compute in ("<<<M3680>>>" ++ check (runes_of_ascii "
-packet
+Eval vm_compute in ("<<<M1315>>>" ++ check (runes_of_ascii "MetaData body { i64 pack `it's` // c
+, } packet stringy { int16 calculatedFrom , }")).
+Eval vm_compute in ("<<<M1891>>>" ++ check (runes_of_ascii "
 
-    o
-{
-    repeat
-	Logon uint8x  , }
+  packet	A	{Inner { 
+u8
+    x
+`a
+b`  ,	Deep
+	{u8 
+y
+`a
+b` , } ,
 
-    // c
-
-	options
-{
-asx
-
-=
-zchar[
-    3  ] stringy =
-    '\x00'
+    } ,
 } ")).
-Eval vm_compute in ("<<<M1414>>>" ++ check (runes_of_ascii "
-packet
-    falsey { @calculatedFrom(Header""packet""  ) , char[
-    0123456789 ] packetx
-    , } // `tick` ""quote"" 'q'")).
-Eval vm_compute in ("<<<M3768>>>" ++ check (runes_of_ascii "  packet
+Eval vm_compute in ("<<<M898>>>" ++ check (runes_of_ascii "packet A { Inner { match k as n { [1,22,007,4,5,66,7,8,9,10,11] : B, }, }, }")).
+Eval vm_compute in ("<<<M1611>>>" ++ check (runes_of_ascii "
+packet 
+A
 
-    T
+{
+match
+k as 
+n {[
+1 
+,
+""bb""]	:
 
-    {@rightPad  (
+B
 
-) 
-@tag(00 
-)
-char[]
+2	:	C} ,
 
-a1
+    }
 
-@calculatedFrom(
-	""a\""b"" )
-	`two words`  ,
-    } ")).
-Eval vm_compute in ("<<<M4550>>>" ++ check (runes_of_ascii "MetaData body {
-    BodyLength stringy,
-    //	t
-    zchar[42] o,
-    i64_ lengthOf `{ , }`,
-    u8 MetaDataX,
-}")).
-Eval vm_compute in ("<<<M4617>>>" ++ check (runes_of_ascii "packet metadata {
-    Logon {
-        A `" ++ [28040; 24687; 31867; 22411]%N ++ runes_of_ascii "`,
-        tag o,
-    },
-    zchar len `// not a comment`,
-}// c")).
-Eval vm_compute in ("<<<M3039>>>" ++ check (runes_of_ascii "packet A {
-    u16 len @lengthOf(body) `
-x`,
-    u32 crc @calculatedFrom(""CRC32"") `
-x`,
-    string body,
-}")).
-Eval vm_compute in ("<<<M3028>>>" ++ check (runes_of_ascii "packet A {
-    Inner {
-        u8 x `a
-
-b`,
-        Deep {
-            u8 y `a
-
-b`,
-        },
-    },
-}")).
-Eval vm_compute in ("<<<M4529>>>" ++ check (runes_of_ascii "  packet
-	A
-{ 
-match	k
-    as
-n{
-    [
-1	,
-22
-    ,  ""c c"", 4 ,	5,
-    ""f"" , 7  ]  :
-	B 2
-:
-C
-},
-}")).
-Eval vm_compute in ("<<<M2367>>>" ++ check (runes_of_ascii "// c
-packet x { @lengthOf( metadata ) repeat lengthOf
-,a1{
-trueish	,// c
-repeat//	t
-MetaDataX , }")).
-Eval vm_compute in ("<<<M3752>>>" ++ check (runes_of_ascii "packet A {
-    B b `tab
-        	x`,
-    B `tab
-        	x`,
-    repeat B bs `tab
-        	x`,
-}")).
-Eval vm_compute in ("<<<M2947>>>" ++ check (runes_of_ascii "packet A {
-  match k as n {
-    [""a"", ""bb"", 007, ""d"", ""e"", 66, ""g"", ""h""] : B
-    2 : C
-  },
-}")).
-Eval vm_compute in ("<<<M3184>>>" ++ check (runes_of_ascii "// top
-root // c0
-packet // c1
-u128 // c2
-{ // c3
-chars // c4
-`it's` // c5
-, // c6
-} // c7
 ")).
-Eval vm_compute in ("<<<M2288>>>" ++ check (runes_of_ascii "options
-{ } options { BodyLength= u16 Header= f64 ; u128 =
-    true
-    ; true // a // b")).
-Eval vm_compute in ("<<<M3294>>>" ++ check (runes_of_ascii "MetaData float { float64 charz `
-` , } root packet chars { @rightPad
-// c
-( '0' ) Foo , }")).
-Eval vm_compute in ("<<<M3505>>>" ++ check (runes_of_ascii "packet chars { } packet MetaDataX { @tag( 42 ) i16 // c
-string_ , repeat x `say ""hi""` , }")).
-Eval vm_compute in ("<<<M2304>>>" ++ check (runes_of_ascii "options
-{ } options { BodyLength= u16 Header= f64 ; u128 =
-    true
-    ; "" } // a // b")).
-Eval vm_compute in ("<<<M3248>>>" ++ check (runes_of_ascii "packet metadata { Logon { A `" ++ [28040; 24687; 31867; 22411]%N ++ runes_of_ascii "` , tag o , } , zchar len `// not a comment` , }
-// c
-")).
-Eval vm_compute in ("<<<M3213>>>" ++ check (runes_of_ascii "packet // c
-metadata { Logon { A `" ++ [28040; 24687; 31867; 22411]%N ++ runes_of_ascii "` , tag o , } , zchar len `// not a comment` , }")).
-Eval vm_compute in ("<<<M3245>>>" ++ check (runes_of_ascii "packet metadata { Logon { A `" ++ [28040; 24687; 31867; 22411]%N ++ runes_of_ascii "` , tag o , } , zchar len `// not a comment` , // c
-}")).
-Eval vm_compute in ("<<<M3436>>>" ++ check (runes_of_ascii "packet o { repeat
-// c
-Logon uint8x , } options { asx = zchar[ 3 ] stringy = '\x00' }")).
-Eval vm_compute in ("<<<M7>>>" ++ check (runes_of_ascii "packet pack {
-repeat As {
-char[ 65535 // trailing space 
-] crc `crlf
-line` , },
+Eval vm_compute in ("<<<M1715>>>" ++ check (runes_of_ascii "
+
+  packet
+	A 
+{B
+	b
+    `a
+b`, B
+
+`a
+b`,
+
+repeat
+
+B
+	bs`a
+b` ,
 }
 ")).
-Eval vm_compute in ("<<<M3423>>>" ++ check (runes_of_ascii "MetaData body { i64 pack `it's` , } packet stringy { int16 calculatedFrom , }
-// c
-")).
-Eval vm_compute in ("<<<M3411>>>" ++ check (runes_of_ascii "MetaData body { i64 pack `it's` , } packet
-// c
-stringy { int16 calculatedFrom , }")).
-Eval vm_compute in ("<<<M4339>>>" ++ check (runes_of_ascii "options {matchKey
-
-    =0 Header
-    =
-    // " ++ [128512]%N ++ runes_of_ascii " emoji
-	// c
-    ""CRC32""
-    }")).
-Eval vm_compute in ("<<<M2919>>>" ++ check (runes_of_ascii "packet A {
+Eval vm_compute in ("<<<M778>>>" ++ check (runes_of_ascii "packet A {
   match k as n {
-    [1, 22, ""c c"", 4, 5, ""f""] : B
+    [1, ""bb""] : B
     2 : C
   },
 }")).
-Eval vm_compute in ("<<<M2911>>>" ++ check (runes_of_ascii "packet A {
-  match k as n {
-    [1, 22, 007, 4, 5, 66] : B
-    2 : C
-  },
-}")).
-Eval vm_compute in ("<<<M2873>>>" ++ check (runes_of_ascii "packet A {
-  match k as n {
-    [""a"", ""bb"", ""c c""] : B,
-    2 : C
-  },
-}")).
-Eval vm_compute in ("<<<M4508>>>" ++ check (runes_of_ascii "packet Z9_ {
-    @tag(4294967296)
-    uint8x @calculatedFrom(""abc""),
-}")).
-Eval vm_compute in ("<<<M2750>>>" ++ check (runes_of_ascii ") u64 @calculatedFrom( '0' match } packet root float @rightPad { 42")).
-Eval vm_compute in ("<<<M490>>>" ++ check (runes_of_ascii "MetaData pack{
-    }
-packet i64_ {
-    uint16 T , // a // b
-} 	 ")).
-Eval vm_compute in ("<<<M1077>>>" ++ check (runes_of_ascii "options {
-Logon
-= true
-    msg_type
-= '\x00' ;
-T =
-int16 }
-")).
-Eval vm_compute in ("<<<M2280>>>" ++ check (runes_of_ascii "options
-{ } options { BodyLength= u16 Header= f64 ; u128 =")).
-Eval vm_compute in ("<<<M3370>>>" ++ check (runes_of_ascii "packet x {
-// c
-@rightPad ( ) repeat roots Logon `doc` , }")).
-Eval vm_compute in ("<<<M4544>>>" ++ check (runes_of_ascii "
+Eval vm_compute in ("<<<M1274>>>" ++ check (runes_of_ascii "// c
+packet x { @rightPad ( ) repeat roots Logon `doc` , }")).
+Eval vm_compute in ("<<<M1775>>>" ++ check (runes_of_ascii "
+MetaData
+trueish{
+u64 	 // trailing space 
+  	i8i8 ,}
 
-  root
-	packet  zchar
-
-    {  zchar[007
-	]  Foo
-
-,}
 ")).
-Eval vm_compute in ("<<<M2870>>>" ++ check (runes_of_ascii "packet A { Inner { match k as n { [1,22] : B, }, }, }")).
-Eval vm_compute in ("<<<M2589>>>" ++ check (runes_of_ascii "packet A { x @lengthOf(y) @calculatedFrom(""c""), }")).
-Eval vm_compute in ("<<<M112>>>" ++ check (runes_of_ascii "MetaData crc { uint8x float
-,}
-// @lengthOf(
-")).
-Eval vm_compute in ("<<<M4600>>>" ++ check (runes_of_ascii "root packet 
-lengthOf
-	{
-    }
-
-options {
-	}
-")).
-Eval vm_compute in ("<<<M2785>>>" ++ check (runes_of_ascii "= ] i64 f32 @calculatedFrom( ; match false")).
-Eval vm_compute in ("<<<M3192>>>" ++ check (runes_of_ascii "root packet
+Eval vm_compute in ("<<<M288>>>" ++ check (runes_of_ascii "options { leftPad //	t
+= //	t
+""" ++ [28040; 24687]%N ++ runes_of_ascii """ } // " ++ [128512]%N ++ runes_of_ascii " emoji")).
+Eval vm_compute in ("<<<M1779>>>" ++ check (runes_of_ascii "MetaData
+M{	} // c
+    MetaData N {
+	}  // d")).
+Eval vm_compute in ("<<<M1103>>>" ++ check (runes_of_ascii "root packet
 // c
 u128 { chars `it's` , }")).
-Eval vm_compute in ("<<<M1710>>>" ++ check (runes_of_ascii "options { trueish = ""`tick`"" ; string_")).
-Eval vm_compute in ("<<<M2749>>>" ++ check (runes_of_ascii "7n9Pa7n1_7](hItIzEPN(=6lB6B^*NjpYE6g")).
-Eval vm_compute in ("<<<M4442>>>" ++ check (runes_of_ascii "root packet A {
-    u8 x `
-    `,
+Eval vm_compute in ("<<<M2035>>>" ++ check (runes_of_ascii "
+//	t
+  packet
+Packet{
+u64 tag, 
+}
+")).
+Eval vm_compute in ("<<<M1058>>>" ++ check (runes_of_ascii "packet A {
+ u8 x `d x`, // c x
 }")).
-Eval vm_compute in ("<<<M2652>>>" ++ check (runes_of_ascii "MetaData M { u8 x @lengthOf(y), }")).
-Eval vm_compute in ("<<<M4391>>>" ++ check (runes_of_ascii "packet A {
-    u8 x `d" ++ [8192]%N ++ runes_of_ascii "`,// c" ++ [8192]%N ++ runes_of_ascii "
+Eval vm_compute in ("<<<M1053>>>" ++ check (runes_of_ascii "packet A {
+ u8 x `d" ++ [6158]%N ++ runes_of_ascii "`, // c" ++ [6158]%N ++ runes_of_ascii "
 }")).
-Eval vm_compute in ("<<<M3067>>>" ++ check (runes_of_ascii "packet A {
- u8 x `d" ++ [12288]%N ++ runes_of_ascii "`, // c" ++ [12288]%N ++ runes_of_ascii "
-}")).
-Eval vm_compute in ("<<<M4006>>>" ++ check (runes_of_ascii "options {
-    pack = false;
-}")).
-Eval vm_compute in ("<<<M2806>>>" ++ check (runes_of_ascii "P" ++ [65533; 65533; 23; 65533; 65533]%N ++ runes_of_ascii "0f" ++ [65533; 3; 521]%N ++ runes_of_ascii "'" ++ [65533]%N ++ runes_of_ascii "bW" ++ [18; 65533; 14; 21]%N ++ runes_of_ascii "~" ++ [65533; 65533; 12; 1709; 65533; 65533; 127]%N)).
-Eval vm_compute in ("<<<M1137>>>" ++ check (runes_of_ascii "packet
-i8i8
-    { }
+Eval vm_compute in ("<<<M1174>>>" ++ check (runes_of_ascii "root packet pack { }
 // c
 ")).
-Eval vm_compute in ("<<<M2291>>>" ++ check (runes_of_ascii "options
-{ } options { B")).
-Eval vm_compute in ("<<<M2743>>>" ++ check (runes_of_ascii "int64 [ ; { char[] u32")).
-Eval vm_compute in ("<<<M2230>>>" ++ check (runes_of_ascii "options
-{ } options")).
-Eval vm_compute in ("<<<M2644>>>" ++ check (runes_of_ascii "MetaData M { u8 x }")).
-Eval vm_compute in ("<<<M3065>>>" ++ check (runes_of_ascii "packet A {
-}
-// c" ++ [12288]%N)).
-Eval vm_compute in ("<<<M3158>>>" ++ check (runes_of_ascii "MetaData M {
-}// c")).
-Eval vm_compute in ("<<<M3128>>>" ++ check (runes_of_ascii "packet A {
-}// c" ++ [8203]%N)).
-Eval vm_compute in ("<<<M3155>>>" ++ check (runes_of_ascii "packet A {
-}
-
-
+Eval vm_compute in ("<<<M1652>>>" ++ check (runes_of_ascii "packet BodyLength {
+}")).
+Eval vm_compute in ("<<<M982>>>" ++ check (runes_of_ascii "// c" ++ [160]%N ++ runes_of_ascii "
+packet A {
+}")).
+Eval vm_compute in ("<<<M194>>>" ++ check (runes_of_ascii "root
+packet u{}
 ")).
-Eval vm_compute in ("<<<M1294>>>" ++ check (runes_of_ascii "
-/// triple
-")).
-Eval vm_compute in ("<<<M2802>>>" ++ check ([65533; 65533]%N ++ runes_of_ascii "K" ++ [65533; 65533]%N ++ runes_of_ascii "	y" ++ [65533; 65533]%N ++ runes_of_ascii "7")).
-Eval vm_compute in ("<<<M2435>>>" ++ check (runes_of_ascii "zchar [")).
-Eval vm_compute in ("<<<M3124>>>" ++ check (runes_of_ascii "// c 	")).
-Eval vm_compute in ("<<<M3089>>>" ++ check (runes_of_ascii "// c" ++ [8202]%N)).
-Eval vm_compute in ("<<<M2542>>>" ++ check (runes_of_ascii "{}{}")).
-Eval vm_compute in ("<<<M2545>>>" ++ check (runes_of_ascii "ab")).
-Eval vm_compute in ("<<<M2555>>>" ++ check (runes_of_ascii "a" ++ [233]%N)).
+Eval vm_compute in ("<<<M756>>>" ++ check ([65533]%N ++ runes_of_ascii "d" ++ [65533]%N ++ runes_of_ascii "L" ++ [65533; 22; 65533; 65533; 65533; 65533; 4]%N ++ runes_of_ascii "5" ++ [65533; 65533]%N)).
+Eval vm_compute in ("<<<M733>>>" ++ check (runes_of_ascii "znmfa")).
+Eval vm_compute in ("<<<M458>>>" ++ check (runes_of_ascii "p")).
